@@ -207,6 +207,23 @@ pub mod trace {
         if r == 0 { with(|st| { if let Some(x) = rel(st, p) { st.ops.push(Op::Unlink { p: x }); } }); }
         r
     }
+    /// `unlinkat` (std's remove_dir_all removes the entries of a directory relative to its descriptor): the name is resolved
+    /// through /proc/self/fd before the entry disappears; removals of directories are not file operations of the model
+    #[no_mangle]
+    pub unsafe extern "C" fn unlinkat(dirfd: c_int, p: *const c_char, flags: c_int) -> c_int {
+        let mut full: Option<Vec<u8>> = None;
+        if ON.load(Ordering::Relaxed) && !p.is_null() && flags & libc::AT_REMOVEDIR == 0 {
+            let name = std::ffi::CStr::from_ptr(p).to_bytes().to_vec();
+            if name.starts_with(b"/") || dirfd == libc::AT_FDCWD { full = Some(name); }
+            else if let Ok(d) = std::fs::read_link(format!("/proc/self/fd/{}", dirfd)) {
+                use std::os::unix::ffi::OsStrExt;
+                let mut f = d.as_os_str().as_bytes().to_vec(); f.push(b'/'); f.extend_from_slice(&name); full = Some(f);
+            }
+        }
+        let r = libc::syscall(libc::SYS_unlinkat, dirfd, p, flags) as c_int;
+        if r == 0 { if let Some(f) = full { with(|st| { if f.starts_with(&st.root) { let x = String::from_utf8_lossy(&f[st.root.len()..]).to_string(); st.ops.push(Op::Unlink { p: x }); } }); } }
+        r
+    }
     // shared writable file mappings: what is stored through the mapping reaches the file at msync/munmap
     unsafe fn do_mmap(addr: *mut c_void, len: usize, prot: c_int, flags: c_int, fd: c_int, off: i64) -> *mut c_void {
         let r = libc::syscall(libc::SYS_mmap, addr, len, prot, flags, fd, off);
@@ -303,7 +320,9 @@ fn cut_points(n: usize, base: usize, marks: &[usize], r: &mut Rng, exhaustive: b
     let mut v: Vec<usize> = vec![0, 1, 2, 7, 8, 9, 15, 16, 17, 23, 24, 25, 31, 32, 33, 63, 64, 65, 71, 72, 73, 79, 80, 81, 87, 88, 127, 128, 129, n - 1, n.saturating_sub(2), n.saturating_sub(8), n.saturating_sub(9), n / 2];
     for &m in marks { for d in [-1i64, 0, 1] { let x = m as i64 - base as i64 + d; if x >= 0 { v.push(x as usize); } } }
     let mut b = 4096usize;
-    while b < base + n { for d in [-1i64, 0, 1] { let x = b as i64 - base as i64 + d; if x >= 0 { v.push(x as usize); } } b += 4096; }
+    // (every 4 KiB boundary up to 48 of them; evenly spread ones beyond that)
+    let step = 4096 * ((base + n) / 4096 / 48).max(1);
+    while b < base + n { for d in [-1i64, 0, 1] { let x = b as i64 - base as i64 + d; if x >= 0 { v.push(x as usize); } } b += step; }
     for _ in 0..extra { v.push(r.below(n as u64) as usize); }
     v.retain(|&x| x < n);
     v.sort_unstable(); v.dedup();
@@ -391,16 +410,50 @@ use zipora::compression::{SuffixArrayDictionary, SuffixArrayDictionaryConfig};
 use zipora::memory::{MmapVec, MmapVecConfig};
 use zipora::{MemoryMappedInput, MemoryMappedOutput};
 
-trait El: Copy + 'static { const ES: usize; fn from(v: u64) -> Self; fn to(self) -> u64; }
-impl El for u8 { const ES: usize = 1; fn from(v: u64) -> Self { v as u8 } fn to(self) -> u64 { self as u64 } }
-impl El for u16 { const ES: usize = 2; fn from(v: u64) -> Self { v as u16 } fn to(self) -> u64 { self as u64 } }
-impl El for u32 { const ES: usize = 4; fn from(v: u64) -> Self { v as u32 } fn to(self) -> u64 { self as u64 } }
-impl El for u64 { const ES: usize = 8; fn from(v: u64) -> Self { v } fn to(self) -> u64 { self } }
+trait El: Copy + PartialEq + 'static { const ES: usize; const NAME: &'static str; const MASK: u64; fn from(v: u64) -> Self; fn to(self) -> u64; }
+macro_rules! el_int { ($t:ty, $u:ty, $n:expr) => {
+    impl El for $t { const ES: usize = std::mem::size_of::<$t>(); const NAME: &'static str = $n;
+        const MASK: u64 = if std::mem::size_of::<$t>() == 8 { u64::MAX } else { (1u64 << (std::mem::size_of::<$t>() * 8)) - 1 };
+        fn from(v: u64) -> Self { v as $u as $t } fn to(self) -> u64 { self as $u as u64 } }
+} }
+el_int!(u8, u8, "u8"); el_int!(u16, u16, "u16"); el_int!(u32, u32, "u32"); el_int!(u64, u64, "u64");
+el_int!(i8, u8, "i8"); el_int!(i16, u16, "i16"); el_int!(i32, u32, "i32"); el_int!(i64, u64, "i64");
+/// 16-byte elements: the payload in the low half, its complement in the high half (a zero-filled or half-written
+/// element reads back as a value nobody stored)
+impl El for u128 { const ES: usize = 16; const NAME: &'static str = "u128"; const MASK: u64 = u64::MAX;
+    fn from(v: u64) -> Self { (v as u128) | ((!v as u128) << 64) }
+    fn to(self) -> u64 { if (self >> 64) as u64 == !(self as u64) { self as u64 } else { 0xDEAD_0000_0000_0000 ^ (self as u64) ^ ((self >> 64) as u64).rotate_left(7) } } }
+/// 3-byte elements (an element size that is not a power of two, alignment 1)
+impl El for [u8; 3] { const ES: usize = 3; const NAME: &'static str = "b3"; const MASK: u64 = 0xFF_FFFF;
+    fn from(v: u64) -> Self { [v as u8, (v >> 8) as u8, (v >> 16) as u8] } fn to(self) -> u64 { self[0] as u64 | (self[1] as u64) << 8 | (self[2] as u64) << 16 } }
+/// zero-sized elements: the file is the header alone
+impl El for () { const ES: usize = 0; const NAME: &'static str = "unit"; const MASK: u64 = 0; fn from(_: u64) -> Self {} fn to(self) -> u64 { 0 } }
+/// dispatch on the element type name of a case (`ty`, or the element size of older cases)
+macro_rules! with_ty { ($ty:expr, $T:ident, $body:expr) => { match $ty {
+    "u8" => { type $T = u8; $body } "u16" => { type $T = u16; $body } "u32" => { type $T = u32; $body } "u64" => { type $T = u64; $body }
+    "i8" => { type $T = i8; $body } "i16" => { type $T = i16; $body } "i32" => { type $T = i32; $body } "i64" => { type $T = i64; $body }
+    "u128" => { type $T = u128; $body } "b3" => { type $T = [u8; 3]; $body } "unit" => { type $T = (); $body }
+    _ => { type $T = u64; $body } } } }
+fn ty_of(c: &Value) -> String {
+    if let Some(t) = c["ty"].as_str() { return t.to_string(); }
+    match c["es"].as_u64().unwrap_or(8) { 1 => "u8", 2 => "u16", 4 => "u32", _ => "u64" }.to_string()
+}
+/// the configurations a vector file is opened with: 0 = the default, the presets, two built with the builder
+fn mv_preset(k: u64) -> MmapVecConfig {
+    match k {
+        1 => MmapVecConfig::read_only(), 2 => MmapVecConfig::large_dataset(), 3 => MmapVecConfig::persistent_cache(),
+        4 => MmapVecConfig::performance_optimized(), 5 => MmapVecConfig::memory_optimized(), 6 => MmapVecConfig::realtime(),
+        7 => MmapVecConfig::builder().with_initial_capacity(5).with_growth_factor(1.25).with_read_only(false).with_populate_pages(true)
+                .with_huge_pages(false).with_sync_on_write(true).build(),
+        8 => zipora::memory::MmapVecConfigBuilder::new().with_read_only(true).build(),
+        _ => MmapVecConfig::default(),
+    }
+}
 
 const READ_LIMIT: usize = 400_000;
 
-fn mv_read<T: El>(path: &str) -> Value {
-    match MmapVec::<T>::open(path, MmapVecConfig::default()) {
+fn mv_read<T: El>(path: &str, cfg: u64) -> Value {
+    match MmapVec::<T>::open(path, mv_preset(cfg)) {
         Err(e) => json!({"err": e.to_string()}),
         Ok(v) => {
             let n = v.len();
@@ -414,7 +467,17 @@ fn mv_read<T: El>(path: &str) -> Value {
             let s = v.as_slice();
             if s.len() != n { return json!({"bad": "as_slice length differs from len"}); }
             for i in 0..lim { if s[i].to() != elems[i] { return json!({"bad": "as_slice differs from get"}); } }
-            if n <= lim && (&v).into_iter().count() != n { return json!({"bad": "iterator count differs from len"}); }
+            if n <= lim {
+                let it = (&v).into_iter();
+                if it.len() != n || it.size_hint() != (n, Some(n)) { return json!({"bad": "iterator length differs from len"}); }
+                let mut k = 0usize;
+                for x in &v { if k >= n || x.to() != elems[k] { return json!({"bad": "iterator differs from get"}); } k += 1; }
+                if k != n { return json!({"bad": "iterator count differs from len"}); }
+            }
+            if v.is_empty() != (n == 0) { return json!({"bad": "is_empty disagrees with len"}); }
+            let st = v.stats();
+            if st.len != n || st.capacity != v.capacity() || st.element_size != T::ES { return json!({"bad": "stats() disagrees with len/capacity/element size"}); }
+            if n > v.capacity() { return json!({"bad": "len exceeds capacity"}); }
             json!({"ok": {"len": n, "elems": elems}, "cap": v.capacity()})
         }
     }
@@ -422,10 +485,104 @@ fn mv_read<T: El>(path: &str) -> Value {
 fn hex(b: &[u8]) -> String { let mut s = String::with_capacity(b.len() * 2); for x in b { s.push_str(&format!("{:02x}", x)); } s }
 fn unhex(s: &str) -> Vec<u8> { (0..s.len() / 2).map(|i| u8::from_str_radix(&s[2 * i..2 * i + 2], 16).unwrap_or(0)).collect() }
 
+/// the content of a raw byte stream: spelled out, or (large files) by length, digest and both ends
+fn mmio_state(b: &[u8]) -> Value {
+    if b.len() <= 20000 { json!({"bytes": hex(b)}) }
+    else { json!({"n": b.len(), "digest": format!("{:016x}", fnv64(b, 0xcbf29ce484222325)), "head": hex(&b[..16]), "tail": hex(&b[b.len() - 16..])}) }
+}
+/// the other entry points of MemoryMappedInput on a file whose bytes `all` were just read through read_slice: every one of
+/// them must present the same bytes (or, where a strategy does not offer it, refuse) and refuse anything past the end
+fn mmio_read_wide(path: &str, inp: &mut MemoryMappedInput, all: &[u8]) -> Option<String> {
+    use zipora::io::{AccessPattern, InputStrategy};
+    use zipora::DataInput;
+    let n = all.len();
+    let buffered = inp.strategy() == InputStrategy::BufferedIO;
+    if inp.position() != n || inp.remaining() != 0 || inp.is_empty() != (n == 0) { return Some("position()/remaining()/is_empty() after reading everything".into()); }
+    if inp.seek(n + 1).is_ok() { return Some("seek past the end succeeded".into()); }
+    if inp.skip(usize::MAX).is_ok() || inp.skip(1).is_ok() { return Some("skip past the end succeeded".into()); }
+    // typed little-endian reads from the start
+    if inp.seek(0).is_err() || inp.position() != 0 { return Some("seek(0) failed".into()); }
+    let mut p = 0usize; let mut k = 0usize;
+    while n - p >= 8 && k < 400 {
+        let (got, w): (Option<u64>, usize) = match k % 5 {
+            0 => (inp.read_u8().ok().map(|x| x as u64), 1), 1 => (inp.read_u16().ok().map(|x| x as u64), 2), 2 => (inp.read_u32().ok().map(|x| x as u64), 4),
+            3 => (inp.read_u64().ok(), 8),
+            _ => { let mut b = [0u8; 5]; (inp.read_bytes(&mut b).ok().map(|_| { let mut x = [0u8; 8]; x[..5].copy_from_slice(&b); u64::from_le_bytes(x) }), 5) } };
+        let mut x = [0u8; 8]; x[..w].copy_from_slice(&all[p..p + w]);
+        if got != Some(u64::from_le_bytes(x)) { return Some(format!("typed read of {} bytes at {} differs from the bytes of the file", w, p)); }
+        p += w; k += 1;
+        if inp.position() != p || inp.remaining() != n - p { return Some("position() after a typed read".into()); }
+        if k % 7 == 0 && n > 64 { let step = (n / 9).max(1); if inp.skip(step.min(n - p)).is_err() { return Some("skip inside the file failed".into()); } p += step.min(n - p); }
+    }
+    // seek / peek / zero-copy at a few places, the last byte and the end among them
+    for &q in &[0usize, 1, n / 2, 4095, 4096, 4097, 65535, 65536, n.saturating_sub(9), n.saturating_sub(1), n] {
+        if q > n { continue; }
+        if inp.seek(q).is_err() || inp.position() != q { return Some(format!("seek({}) inside a file of {} bytes failed", q, n)); }
+        let len = (n - q).min(100);
+        match inp.peek_slice(len) { Ok(b) => if b != all[q..q + len] || inp.position() != q { return Some(format!("peek_slice at {} differs from the bytes of the file", q)); },
+                                    Err(_) => if !buffered { return Some(format!("peek_slice inside the file failed at {}", q)); } }
+        match inp.peek_slice_zero_copy(len) { Ok(b) => if b != &all[q..q + len] { return Some(format!("peek_slice_zero_copy at {} differs from the bytes of the file", q)); },
+                                              Err(_) => if !buffered { return Some(format!("peek_slice_zero_copy inside the file failed at {}", q)); } }
+        if inp.peek_slice(n - q + 1).is_ok() || inp.peek_slice_zero_copy(n - q + 1).is_ok() { return Some("peek past the end succeeded".into()); }
+        match inp.read_slice_zero_copy(len) { Ok(b) => { if b != &all[q..q + len] { return Some(format!("read_slice_zero_copy at {} differs from the bytes of the file", q)); } if inp.position() != q + len { return Some("position() after read_slice_zero_copy".into()); } }
+                                              Err(_) => { if !buffered { return Some(format!("read_slice_zero_copy inside the file failed at {}", q)); }
+                                                          match inp.read_slice(len) { Ok(b) => if b != all[q..q + len] { return Some(format!("read_slice after seek({}) differs from the bytes of the file", q)); }, Err(e) => return Some(format!("read_slice after seek({}) failed: {}", q, e)) } } }
+        if inp.read_slice_zero_copy(n - q - len + 1).is_ok() { return Some("read_slice_zero_copy past the end succeeded".into()); }
+    }
+    // every access pattern, from a path and from an open file
+    for (i, pat) in [AccessPattern::Sequential, AccessPattern::Random, AccessPattern::Mixed, AccessPattern::Unknown].iter().enumerate() {
+        let made = if i % 2 == 0 { MemoryMappedInput::from_path_with_pattern(path, *pat) } else { std::fs::File::open(path).map_err(|e| e.into()).and_then(|f| MemoryMappedInput::new_with_pattern(f, *pat)) };
+        match made {
+            Err(e) => return Some(format!("opening with access pattern {:?} failed: {}", pat, e)),
+            Ok(mut o) => { if o.len() != n { return Some(format!("len() with access pattern {:?}", pat)); }
+                           match o.read_slice(n) { Ok(b) => if b != all { return Some(format!("content with access pattern {:?} differs", pat)); }, Err(e) => return Some(format!("read with access pattern {:?} failed: {}", pat, e)) }
+                           if o.read_slice(1).is_ok() { return Some("read past the end succeeded".into()); } }
+        }
+    }
+    match std::fs::File::open(path).map_err(|e| e.into()).and_then(MemoryMappedInput::new) { Ok(o) => if o.len() != n { return Some("MemoryMappedInput::new: len()".into()); }, Err(e) => return Some(format!("MemoryMappedInput::new failed: {}", e)) }
+    None
+}
+
+/// what a dictionary presents: its text, the pattern lengths it matches, and its answers to a fixed set of probes derived from
+/// the text (substrings, substrings with the last byte changed, bytes that do not occur): the length of the longest match, the
+/// depth of the two-level match, the number of occurrences reported.  A reported match must really occur at its position.
+fn dict_state(d: &mut SuffixArrayDictionary) -> Result<Value, String> {
+    let text = d.data().to_vec();
+    if d.dictionary_text() != &text[..] || d.dictionary_size() != text.len() { return Err("dictionary_text()/dictionary_size() disagree with data()".into()); }
+    if let Err(e) = d.validate() { return Err(format!("validate() of a dictionary that loaded: {}", e)); }
+    let (minp, maxp) = (d.config().min_pattern_length, d.config().max_pattern_length);
+    let mut probes: Vec<Vec<u8>> = vec![];
+    if !text.is_empty() {
+        for k in 0..8usize {
+            let p = (k * 7919 + 3) % text.len();
+            for l in [minp.max(1), 2 * minp + 3, 40] { let e = (p + l).min(text.len()); let mut q = text[p..e].to_vec(); probes.push(q.clone()); if k % 2 == 0 { if let Some(x) = q.last_mut() { *x ^= 0xFF; } probes.push(q); } }
+        }
+    }
+    probes.push(vec![0xFE, 0xFD, 0xFC, 0xFB, 0xFA, 0xF9, 0xF8, 0xF7]); probes.push(vec![]);
+    let mut out = vec![];
+    for q in &probes {
+        let m = d.find_longest_match(q, 0, 1000).map_err(|e| format!("find_longest_match failed: {}", e))?;
+        let len = match m { None => 0usize, Some(m) => {
+            if m.length > q.len() || m.dict_position + m.length > text.len() || text[m.dict_position..m.dict_position + m.length] != q[..m.length] { return Err(format!("find_longest_match reports {} bytes at dictionary position {} which are not there", m.length, m.dict_position)); }
+            m.length } };
+        let st = d.da_match_max_length(q);
+        let all = d.find_all_matches(&q[..q.len().min(maxp)], 5).map_err(|e| format!("find_all_matches failed: {}", e))?;
+        for m in &all { if m.dict_position + m.length > text.len() || m.length > q.len() || text[m.dict_position..m.dict_position + m.length] != q[..m.length] { return Err("find_all_matches reports a match that is not there".into()); } }
+        // the suffix-array engine on its own: the same depth as the two-level match, the range of the first byte
+        let n = d.data().len();
+        let sa = d.sa_match_continuation(0, n, 0, q);
+        if sa.depth > q.len() || sa.lo > sa.hi || sa.hi > n { return Err("sa_match_continuation leaves the suffix array".into()); }
+        let first = q.first().map(|&b| { let (lo, hi) = d.sa_equal_range(0, n, 0, b); hi.saturating_sub(lo) }).unwrap_or(0);
+        if first != text.iter().filter(|&&b| Some(&b) == q.first()).count() { return Err(format!("sa_equal_range counts {} occurrences of byte {:?}", first, q.first())); }
+        out.push(json!([len, st.depth, all.len(), sa.depth, sa.match_count()]));
+    }
+    Ok(json!({"text": hex(&text), "min": minp, "max": maxp, "probes": out}))
+}
+
 fn read_state(req: &Value) -> Value {
     let path = req["path"].as_str().unwrap_or("");
     match req["cell"].as_str().unwrap_or("") {
-        "mmapvec" => match req["es"].as_u64().unwrap_or(8) { 1 => mv_read::<u8>(path), 2 => mv_read::<u16>(path), 4 => mv_read::<u32>(path), _ => mv_read::<u64>(path) },
+        "mmapvec" => { let ty = ty_of(req); let cfg = req["cfg"].as_u64().unwrap_or(0); with_ty!(ty.as_str(), T, mv_read::<T>(path, cfg)) }
         "plain" => match PlainBlobStore::new(path) {
             Err(e) => json!({"err": e.to_string()}),
             Ok(st) => {
@@ -445,11 +602,35 @@ fn read_state(req: &Value) -> Value {
             Err(e) => json!({"err": e.to_string()}),
             Ok(mut m) => {
                 let size = m.size();
+                let digest = req["digest"].as_bool().unwrap_or(false);
+                let lim = if digest { usize::MAX } else { READ_LIMIT };
                 let mut vals: Vec<u64> = vec![];
-                let lim = size.min(READ_LIMIT);
-                while vals.len() < lim { match m.next() { Some(v) => vals.push(v as u64), None => break } }
+                let mut h = 0xcbf29ce484222325u64; let mut count = 0usize;
+                // iteration in lockstep with the cursor observers: index(), current(), eof(), the exact-size length
+                while count < size.min(lim) {
+                    if m.eof() { break; }
+                    if m.index() != count { return json!({"bad": format!("index() = {} after {} values", m.index(), count)}); }
+                    if m.len() != size - count || m.size_hint() != (size - count, Some(size - count)) { return json!({"bad": "len()/size_hint() differ from size() - index()"}); }
+                    let cur = m.current();
+                    match m.next() { Some(v) => { if v != cur { return json!({"bad": format!("current() = {} but next() = {}", cur, v)}); }
+                                                  h = fnv64(&(v as u64).to_le_bytes(), h); count += 1; if !digest || count <= 8 || count + 8 > size { vals.push(v as u64); } }
+                                     None => break }
+                }
                 if size > lim { return json!({"ok": {"size": size, "values": vals, "cut": true}}); }
+                if count == size && !m.eof() { return json!({"bad": "not eof() after size() values"}); }
                 if m.next().is_some() { return json!({"bad": "yields more than size() values"}); }
+                // rewind: the same values again, also from the middle of a run
+                let k = count.min(3000);
+                for round in 0..2 {
+                    if let Err(e) = m.rewind() { return json!({"bad": format!("rewind failed on a map that opened: {}", e)}); }
+                    if m.size() != size { return json!({"bad": "size() changed after rewind"}); }
+                    let mut h2 = 0xcbf29ce484222325u64; let mut c2 = 0usize;
+                    let stop = if round == 0 { k / 2 } else { count };
+                    while c2 < stop { match m.next() { Some(v) => { h2 = fnv64(&(v as u64).to_le_bytes(), h2); c2 += 1; } None => break } }
+                    if c2 != stop || (round == 1 && h2 != h) { return json!({"bad": "after rewind() the map yields other values than before"}); }
+                }
+                if digest { return json!({"ok": {"size": size, "count": count, "digest": format!("{:016x}", h), "ends": vals}}); }
+                if count < size { return json!({"ok": {"size": size, "values": vals}}); }
                 json!({"ok": {"size": size, "values": vals}})
             }
         },
@@ -472,7 +653,7 @@ fn read_state(req: &Value) -> Value {
         },
         "dict" => match SuffixArrayDictionary::load_from_file(path) {
             Err(e) => json!({"err": e.to_string()}),
-            Ok(d) => json!({"ok": {"text": hex(d.data()), "min": d.config().min_pattern_length, "max": d.config().max_pattern_length}}),
+            Ok(mut d) => match dict_state(&mut d) { Ok(st) => json!({"ok": st}), Err(b) => json!({"bad": b}) },
         },
         "mmio" => match MemoryMappedInput::from_path(path) {
             Err(e) => json!({"err": e.to_string()}),
@@ -484,10 +665,32 @@ fn read_state(req: &Value) -> Value {
                     match inp.read_slice(k) { Ok(b) => { if b.len() != k { return json!({"bad": "short read_slice"}); } all.extend_from_slice(&b) }, Err(e) => return json!({"bad": format!("read inside len failed: {}", e)}) }
                 }
                 if inp.read_slice(1).is_ok() { return json!({"bad": "read past the end succeeded"}); }
-                json!({"ok": {"bytes": hex(&all)}})
+                if let Some(b) = mmio_read_wide(path, &mut inp, &all) { return json!({"bad": b}); }
+                json!({"ok": mmio_state(&all)})
             }
         },
-        other => json!({"bad": format!("unknown cell {}", other)}),
+        // what DataOutput wrote, read back value by value through DataInput
+        "mmio_typed" => match MemoryMappedInput::from_path(path) {
+            Err(e) => json!({"err": e.to_string()}),
+            Ok(mut inp) => {
+                use zipora::DataInput;
+                for (k, t) in req["typed"].as_array().cloned().unwrap_or_default().iter().enumerate() {
+                    let v = t[1].as_u64().unwrap_or(0);
+                    let ok = match t[0].as_str().unwrap_or("") {
+                        "u8" => inp.read_u8().ok() == Some(v as u8), "u16" => inp.read_u16().ok() == Some(v as u16), "u32" => inp.read_u32().ok() == Some(v as u32),
+                        "u64" => inp.read_u64().ok() == Some(v), "var" => inp.read_var_int().ok() == Some(v),
+                        "str" => inp.read_length_prefixed_string().ok().as_deref() == t[1].as_str(),
+                        "bytes" => { let want = unhex(t[1].as_str().unwrap_or("")); let mut buf = vec![0u8; want.len()]; inp.read_bytes(&mut buf).is_ok() && buf == want }
+                        "skip" => inp.skip(v as usize).is_ok(),
+                        _ => true,
+                    };
+                    if !ok { return json!({"bad": format!("value {} ({}) does not read back as it was written", k, t)}); }
+                }
+                if inp.remaining() != 0 || inp.read_u8().is_ok() { return json!({"bad": "bytes left after the last written value"}); }
+                json!({"ok": true})
+            }
+        },
+        other => wide::read_state_wide(req).unwrap_or_else(|| json!({"bad": format!("unknown cell {}", other)})),
     }
 }
 
@@ -792,19 +995,29 @@ fn protocol_case(cx: &mut Ctx, seg: &[Op], main: &str, what: &str) {
 // op codes: 0 push v | 1 pop | 2 set i v | 3 truncate n | 4 clear | 5 reserve n | 6 shrink_to_fit | 7 resize n v
 //           8 extend count start | 9 push_bulk count start | 10 sync | 11 sync, drop, open again
 //           12 copy_from_simd count start (the source vector holds start, start+1, ... and lives outside the traced directory)
+// oracle breadth (not known to the Coq state machine; histories containing them are left out of the XMvOps comparison):
+//           13 pop_bulk_simd count | 14 fill_range_simd start end v | 15 compare_range_simd start end perturb (observer)
+//           16 as_mut_slice: every stride-th element := v + index | 17 sync, drop, open with configuration preset k (mv_preset)
+//           18 observers: iterator, stats, memory_usage, path | 19 copy_from_simd count start from a with_capacity_simd source
 fn mv_state(sh: &[u64]) -> Value { json!({"len": sh.len(), "elems": sh}) }
+fn mv_modelled(ops: &[Vec<u64>]) -> bool { ops.iter().all(|o| o.first().copied().unwrap_or(99) <= 12) }
 
-fn mv_case<T: El>(cx: &mut Ctx, ic: usize, growth: f64, sow: bool, ops: &[Vec<u64>], exhaustive: bool) {
-    let cell = format!("MmapVec<u{}>", T::ES * 8);
-    let cj = json!({"cell": "mmapvec", "es": T::ES, "ic": ic, "growth": growth, "sync_on_write": sow, "ops": ops, "exhaustive": exhaustive});
+fn mv_case<T: El>(cx: &mut Ctx, ic: usize, growth: f64, sow: bool, ops: &[Vec<u64>], exhaustive: bool, preset: u64) {
+    let cell = if matches!(T::NAME, "u8" | "u16" | "u32" | "u64") { format!("MmapVec<u{}>", T::ES * 8) } else { format!("MmapVec<{}>", T::NAME) };
+    let mut cj = json!({"cell": "mmapvec", "es": T::ES, "ic": ic, "growth": growth, "sync_on_write": sow, "ops": ops, "exhaustive": exhaustive});
+    if !(matches!(T::NAME, "u8" | "u16" | "u32" | "u64")) { cj["ty"] = json!(T::NAME); }
+    if preset != 0 { cj["preset"] = json!(preset); }
     dbg_case(&cj);
     cx.sum.eval(&cell, &cj.to_string(), ops.len() >= 3);
     let mut r = Rng::new(fnv64(cj.to_string().as_bytes(), 7));
     let dir = cx.fresh_dir("mv");
     let path = format!("{}/v.bin", dir);
     let src_path = format!("{}/mvsrc{}.bin", cx.root, cx.seq);
-    let mk = || { let mut c = MmapVecConfig::default(); c.initial_capacity = ic; c.growth_factor = growth; c.sync_on_write = sow; c };
-    let mask: u64 = if T::ES == 8 { u64::MAX } else { (1u64 << (T::ES * 8)) - 1 };
+    // the configuration the file is created with: the case's own, or a preset (its capacity, growth and sync_on_write)
+    let mk = || { if preset != 0 { mv_preset(preset) } else { let mut c = MmapVecConfig::default(); c.initial_capacity = ic; c.growth_factor = growth; c.sync_on_write = sow; c } };
+    let (mut growth, mut sow, mut ro) = { let c = mk(); (c.growth_factor, c.sync_on_write, c.read_only) };
+    let modelled = preset == 0 && mv_modelled(ops);
+    let mask: u64 = T::MASK;
     let mut shadow: Vec<u64> = vec![];
     let mut states: Vec<Value> = vec![];
     let mut marks: Vec<usize> = vec![];
@@ -820,12 +1033,18 @@ fn mv_case<T: El>(cx: &mut Ctx, ic: usize, growth: f64, sow: bool, ops: &[Vec<u6
         for (k, op) in ops.iter().enumerate() {
             let a = op.get(1).copied().unwrap_or(0);
             let b = op.get(2).copied().unwrap_or(0);
+            let c3 = op.get(3).copied().unwrap_or(0);
             { let c = v.capacity() as u64; if !gtab.iter().any(|g| g.0 == c) { gtab.push((c, (c as f64 * growth) as usize as u64)); } }
-            let rr: Result<(), String> = match op.first().copied().unwrap_or(99) {
+            let code = op.first().copied().unwrap_or(99);
+            // a vector opened read-only must leave its content alone whatever is asked of it: the request is made, its answer
+            // is not judged (refusing is the expected one), the shadow stays as it is
+            let frozen = ro && !matches!(code, 10 | 11 | 15 | 17 | 18);
+            let before_frozen = if frozen { Some(shadow.clone()) } else { None };
+            let rr: Result<(), String> = match code {
                 0 => v.push(T::from(a)).map(|_| shadow.push(a & mask)).map_err(|e| e.to_string()),
-                1 => { let g = v.pop().map(|x| x.to()); let w = shadow.pop(); if g == w { Ok(()) } else { Err(format!("pop = {:?}, a Vec gives {:?}", g, w)) } }
+                1 => { let g = v.pop().map(|x| x.to()); let w = if frozen { None } else { shadow.pop() }; if g == w { Ok(()) } else { Err(format!("pop = {:?}, a Vec gives {:?}", g, w)) } }
                 2 => { let i = a as usize; match v.get_mut(i) { Some(x) => { if i < shadow.len() { *x = T::from(b); shadow[i] = b & mask; Ok(()) } else { Err("get_mut past len is Some".into()) } }
-                                                                 None => if i < shadow.len() { Err("get_mut inside len is None".into()) } else { Ok(()) } } }
+                                                                 None => if i < shadow.len() && !frozen { Err("get_mut inside len is None".into()) } else { Ok(()) } } }
                 3 => v.truncate(a as usize).map(|_| if (a as usize) < shadow.len() { shadow.truncate(a as usize) }).map_err(|e| e.to_string()),
                 4 => v.clear().map(|_| shadow.clear()).map_err(|e| e.to_string()),
                 5 => v.reserve(a as usize).map_err(|e| e.to_string()),
@@ -837,18 +1056,62 @@ fn mv_case<T: El>(cx: &mut Ctx, ic: usize, growth: f64, sow: bool, ops: &[Vec<u6
                        v.extend(it).map(|_| for i in 0..a { shadow.push(b.wrapping_add(i) & mask); if sow && i + 1 < a { states.push(mv_state(&shadow)); marks.push(before); } }).map_err(|e| e.to_string()) }
                 9 => { let it: Vec<T> = (0..a).map(|i| T::from(b.wrapping_add(i))).collect(); v.push_bulk_simd(&it).map(|_| for i in 0..a { shadow.push(b.wrapping_add(i) & mask) }).map_err(|e| e.to_string()) }
                 10 => { last_sync = Some(states.len()); let t0 = trace::len(); let r = v.sync().map_err(|e| e.to_string()); sync_segs.push((t0, trace::len())); r }
-                11 => { last_sync = Some(states.len());
-                        match v.sync() { Err(e) => Err(e.to_string()), Ok(()) => { drop(v); match MmapVec::<T>::open(&path, mk()) { Ok(nv) => { v = nv; Ok(()) } Err(e) => { problem = Some(format!("op {}: open after sync failed: {}", k, e)); return; } } } } }
-                12 => { let it: Vec<T> = (0..a).map(|i| T::from(b.wrapping_add(i))).collect();
-                        let mut sc = MmapVecConfig::default(); sc.initial_capacity = (a as usize).max(1);
-                        let r = MmapVec::<T>::create(&src_path, sc).and_then(|mut src| { src.extend(it)?; v.copy_from_simd(&src) }).map_err(|e| e.to_string());
+                11 | 17 => { last_sync = Some(states.len());
+                        let cfg = if code == 17 { mv_preset(a) } else { mk() };
+                        match v.sync() { Err(e) => Err(e.to_string()), Ok(()) => { drop(v); match MmapVec::<T>::open(&path, cfg.clone()) {
+                            Ok(nv) => { v = nv; if code == 17 { growth = cfg.growth_factor; sow = cfg.sync_on_write; ro = cfg.read_only; } Ok(()) }
+                            Err(e) => { problem = Some(format!("op {}: open after sync failed: {}", k, e)); return; } } } } }
+                12 | 19 => { let it: Vec<T> = (0..a).map(|i| T::from(b.wrapping_add(i))).collect();
+                        let made = if code == 12 { let mut sc = MmapVecConfig::default(); sc.initial_capacity = (a as usize).max(1); MmapVec::<T>::create(&src_path, sc).and_then(|mut src| { src.extend(it)?; Ok(src) }) }
+                                   else { MmapVec::<T>::with_capacity_simd(a as usize).and_then(|mut src| { src.push_bulk_simd(&it)?; Ok(src) }) };
+                        let r = made.and_then(|src| {
+                            if src.len() != a as usize || src.as_slice().iter().zip(0..a).any(|(x, i)| x.to() != b.wrapping_add(i) & mask) { return Err(zipora::ZiporaError::invalid_data("the source vector does not hold what was put into it")); }
+                            v.copy_from_simd(&src) }).map_err(|e| e.to_string());
                         let _ = std::fs::remove_file(&src_path);
                         r.map(|_| { shadow.clear(); for i in 0..a { shadow.push(b.wrapping_add(i) & mask) } }) }
+                13 => { let n = a as usize;
+                        match v.pop_bulk_simd(n) {
+                            Ok(got) => { if frozen { if got.is_empty() { Ok(()) } else { Err("pop_bulk_simd on a read-only vector returned elements".into()) } }
+                                         else if n > shadow.len() { Err(format!("pop_bulk_simd({}) of {} elements succeeded", n, shadow.len())) }
+                                         else { let want = shadow.split_off(shadow.len() - n); if got.iter().map(|x| x.to()).collect::<Vec<_>>() == want { Ok(()) } else { Err("pop_bulk_simd returned other elements than the last ones, in order".into()) } } }
+                            Err(e) => if n > shadow.len() || frozen { Ok(()) } else { Err(e.to_string()) } } }
+                14 => { let (s0, e0) = (a as usize, b as usize);
+                        match v.fill_range_simd(s0..e0, T::from(c3)) {
+                            Ok(()) => { if e0 > shadow.len() { Err(format!("fill_range_simd({}..{}) past len {} succeeded", s0, e0, shadow.len())) } else { for i in s0..e0 { shadow[i] = c3 & mask; } Ok(()) } }
+                            Err(e) => if e0 > shadow.len() || frozen { Ok(()) } else { Err(e.to_string()) } } }
+                15 => { let (s0, e0) = (a as usize, (b as usize).min(shadow.len())); let s0 = s0.min(e0);
+                        // the range of the shadow, optionally with one element changed, in a vector of its own
+                        let mut want: Vec<u64> = shadow[s0..e0].to_vec();
+                        let perturbed = (c3 as usize) < want.len();
+                        if perturbed { let i = c3 as usize; want[i] = (want[i] ^ 1) & mask; }
+                        let differs = perturbed && T::ES > 0;
+                        let mut sc = MmapVecConfig::default(); sc.initial_capacity = want.len().max(1);
+                        let r = MmapVec::<T>::create(&src_path, sc).and_then(|mut o| { o.push_bulk_simd(&want.iter().map(|&x| T::from(x)).collect::<Vec<T>>())?; v.compare_range_simd(s0..e0, &o) }).map_err(|e| e.to_string());
+                        let _ = std::fs::remove_file(&src_path);
+                        match r { Ok(eq) => if eq == !differs { Ok(()) } else { Err(format!("compare_range_simd({}..{}) = {} against a vector that {} the range", s0, e0, eq, if differs { "differs from" } else { "equals" })) }, Err(e) => Err(e) } }
+                16 => { let stride = (a as usize).max(1); let sl = v.as_mut_slice();
+                        if sl.len() != shadow.len() && !frozen { Err(format!("as_mut_slice has {} elements, len is {}", sl.len(), shadow.len())) }
+                        else { let mut i = 0; while i < sl.len() { sl[i] = T::from(b.wrapping_add(i as u64)); if !frozen { shadow[i] = b.wrapping_add(i as u64) & mask; } i += stride; } Ok(()) } }
+                18 => { let got: Vec<u64> = (&v).into_iter().map(|x| x.to()).collect(); let st = v.stats();
+                        if got != shadow { Err("the iterator yields other elements than the vector holds".into()) }
+                        else if (&v).into_iter().len() != shadow.len() { Err("ExactSizeIterator::len differs from len".into()) }
+                        else if st.len != shadow.len() || st.capacity != v.capacity() || st.read_only != ro { Err("stats() disagrees with the vector".into()) }
+                        else if v.memory_usage() != 80 + v.capacity() * T::ES || v.path() != std::path::Path::new(&path) { Err("memory_usage()/path() disagree with the vector".into()) }
+                        else if v.is_empty() != shadow.is_empty() { Err("is_empty disagrees with len".into()) }
+                        else if st.wasted_space() != (v.capacity() - shadow.len()) * T::ES || st.needs_compaction(2.0) != (v.capacity() > 0 || shadow.is_empty()) || (st.memory_efficiency() - st.utilization * 100.0).abs() > 1e-9 { Err("wasted_space()/needs_compaction()/memory_efficiency() disagree with len and capacity".into()) }
+                        else { Ok(()) } }
                 _ => Ok(()),
             };
-            if let Err(e) = rr { problem = Some(format!("op {} {:?} failed: {}", k, op, e)); return; }
+            if let Some(keep) = before_frozen {
+                // whatever the read-only vector answered, it must still hold what it held
+                shadow = keep;
+            } else if let Err(e) = rr { problem = Some(format!("op {} {:?} failed: {}", k, op, e)); return; }
             if v.len() != shadow.len() { problem = Some(format!("op {} {:?}: len {} but a Vec holds {}", k, op, v.len(), shadow.len())); return; }
             if let Some(&w) = shadow.last() { if v.get(shadow.len() - 1).map(|x| x.to()) != Some(w) { problem = Some(format!("op {} {:?}: last element differs in the live vector", k, op)); return; } }
+            if matches!(code, 13 | 14 | 16 | 19) || frozen { if v.as_slice().iter().map(|x| x.to()).ne(shadow.iter().copied()) { problem = Some(format!("op {} {:?}: the live vector differs from a Vec after the same operations", k, op)); return; } }
+            // under sync_on_write every operation that changes the content syncs it ("sync changes to disk immediately"); only what is
+            // stored through get_mut / as_mut_slice references waits for the next sync
+            if sow && !frozen && matches!(code, 0 | 1 | 3 | 4 | 7 | 8 | 9 | 12 | 13 | 14 | 19) && states.last() != Some(&mv_state(&shadow)) { last_sync = Some(states.len()); }
             states.push(mv_state(&shadow)); marks.push(trace::len());
             obs.push([v.len() as u64, v.capacity() as u64, std::fs::metadata(&path).map(|m| m.len()).unwrap_or(u64::MAX)]);
         }
@@ -858,13 +1121,15 @@ fn mv_case<T: El>(cx: &mut Ctx, ic: usize, growth: f64, sow: bool, ops: &[Vec<u6
     if let Err(p) = res { problem = Some(format!("writer panicked: {}", p)); }
     if let Some(p) = problem {
         cx.sum.fail(&cell, None, cj.clone(), &p);
+        let _ = std::fs::remove_dir_all(&dir);
         return;
     }
     // the final clean-reopen expectation: exactly a state at or after the last explicit sync
-    let extra = json!({"es": T::ES});
+    let extra = if matches!(T::NAME, "u8" | "u16" | "u32" | "u64") { json!({"es": T::ES}) } else { json!({"es": T::ES, "ty": T::NAME}) };
     let es = T::ES;
     let mut bm: Vec<usize> = vec![80];
     for st in states.iter().rev().take(3) { let n = st["len"].as_u64().unwrap_or(0) as usize; bm.push(80 + n * es); bm.push(80 + n.saturating_sub(1) * es); }
+    bm.push(65536); bm.push(65536 + 80);
     let mut sim = Disk::new();
     for op in &tr { apply(&mut sim, op); }
     if let Err(w) = tracer_in_sync(&dir, &sim) { panic!("C19 tracer out of sync with the file system:{}", w); }
@@ -879,19 +1144,33 @@ fn mv_case<T: El>(cx: &mut Ctx, ic: usize, growth: f64, sow: bool, ops: &[Vec<u6
             cx.sum.fail(&cell, None, c, &format!("reopen after sync: {} is not the content at the last sync (op {}) or later", brief(&out), ls));
         }
     }
+    // whatever configuration the file is opened with (read-only, the presets, one built with the builder), it presents the same content
+    if let Some(fin) = fin.as_ref() {
+        let out0 = cx.observe("mmapvec", &extra, fin, "v.bin", false);
+        for cfg in [1u64, 3, 7] {
+            let mut e = extra.clone(); e["cfg"] = json!(cfg);
+            let o = cx.observe("mmapvec", &e, fin, "v.bin", false);
+            if o.get("ok") != out0.get("ok") || o.get("err").is_some() != out0.get("err").is_some() {
+                let mut c = cj.clone(); c["image"] = json!("clean");
+                cx.sum.fail(&cell, None, c, &format!("clean reopen with configuration preset {}: {} but with the default configuration {}", cfg, brief(&o), brief(&out0)));
+                break;
+            }
+        }
+    }
     for (a, b) in sync_segs { if b <= tr.len() && a < b { protocol_case(cx, &tr[a..b], "v.bin", "MmapVec::sync"); } }
     // the whole traced history = create, then syncs and resize_to_capacity units over well-formed images
     // (the decidable hypotheses of mv_traced_history_crash_safe)
-    {
+    if matches!(es, 1 | 2 | 4 | 8) {
         let bytes: usize = tr.iter().map(|o| if let Op::Write { data, .. } = o { data.len() } else { 0 }).sum();
         if bytes <= 9000 && cx.n_units < if cx.thorough { 300 } else { 36 } && cx.coq_seen.insert(fnv64(cj.to_string().as_bytes(), 0x756e)) {
             cx.n_units += 1;
-            cx.shards.push(format!("(XMvUnits {} {} [{}])", es, ic, tr.iter().map(|o| fop_term(o, "v.bin")).collect::<Vec<_>>().join("; ")),
-                           json!({"cell": "mmapvec_units", "es": es, "ic": ic, "growth": growth, "sync_on_write": sow, "ops": ops}));
+            let icap = mk().initial_capacity;
+            cx.shards.push(format!("(XMvUnits {} {} [{}])", es, icap, tr.iter().map(|o| fop_term(o, "v.bin")).collect::<Vec<_>>().join("; ")),
+                           cj.clone());
         }
     }
     // correspondence of the operation state machine: header fields and file length after every operation, the elements at the end
-    {
+    if modelled && matches!(es, 1 | 2 | 4 | 8) {
         let vals = |count: u64, start: u64| -> String { coq_n_list((0..count).map(|i| (start.wrapping_add(i) & mask) as u128)) };
         let volume: u64 = ops.iter().map(|o| match o[0] { 8 | 9 | 12 => o[1], 7 => o[1], _ => 1 }).sum::<u64>() + shadow.len() as u64;
         if obs.len() == ops.len() && volume <= 700 && cx.n_mvops < if cx.thorough { 900 } else { 150 } && cx.coq_seen.insert(fnv64(cj.to_string().as_bytes(), 0x4d76)) {
@@ -904,11 +1183,11 @@ fn mv_case<T: El>(cx: &mut Ctx, ic: usize, growth: f64, sow: bool, ops: &[Vec<u6
                                    gtab.iter().map(|g| format!("({}, {})", g.0, g.1)).collect::<Vec<_>>().join("; "), terms.join("; "),
                                    obs.iter().map(|o| format!("[{}; {}; {}]", o[0], o[1], o[2])).collect::<Vec<_>>().join("; "),
                                    coq_n_list(shadow.iter().map(|&x| x as u128))),
-                           json!({"cell": "mmapvec_ops", "es": es, "ic": ic, "growth": growth, "sync_on_write": sow, "ops": ops}));
+                           cj.clone());
         }
     }
     // correspondence cases: small final images and a few damaged ones, with what the real reader saw
-    if let Some(fin) = fin {
+    if let (Some(fin), true) = (fin, matches!(es, 1 | 2 | 4 | 8)) {
         if let Some(f) = fin.get("v.bin") {
             let mut imgs: Vec<Vec<u8>> = vec![f.clone()];
             for t in [f.len() / 2, 80 + shadow.len() * es, f.len().saturating_sub(1), 79, 80] { if t < f.len() { imgs.push(f[..t].to_vec()); } }
@@ -983,17 +1262,112 @@ fn gen_mv_copy(r: &mut Rng, i: usize) -> (usize, usize, f64, bool, Vec<Vec<u64>>
     (es, ic, growth, sow, ops)
 }
 fn run_mv(cx: &mut Ctx, es: usize, ic: usize, growth: f64, sow: bool, ops: &[Vec<u64>], exhaustive: bool) {
-    match es { 1 => mv_case::<u8>(cx, ic, growth, sow, ops, exhaustive), 2 => mv_case::<u16>(cx, ic, growth, sow, ops, exhaustive),
-               4 => mv_case::<u32>(cx, ic, growth, sow, ops, exhaustive), _ => mv_case::<u64>(cx, ic, growth, sow, ops, exhaustive) }
+    let ty = match es { 1 => "u8", 2 => "u16", 4 => "u32", _ => "u64" };
+    run_mv_ty(cx, ty, ic, growth, sow, ops, exhaustive, 0)
 }
+#[allow(clippy::too_many_arguments)]
+fn run_mv_ty(cx: &mut Ctx, ty: &str, ic: usize, growth: f64, sow: bool, ops: &[Vec<u64>], exhaustive: bool, preset: u64) {
+    with_ty!(ty, T, mv_case::<T>(cx, ic, growth, sow, ops, exhaustive, preset))
+}
+const MV_TYPES: [&str; 11] = ["u8", "u16", "u32", "u64", "i8", "i16", "i32", "i64", "u128", "b3", "unit"];
+fn ty_es(ty: &str) -> usize { with_ty!(ty, T, <T as El>::ES) }
 
+/// oracle breadth: histories that mix the old operations with the secondary entry points (pop_bulk_simd, fill_range_simd,
+/// compare_range_simd, as_mut_slice, the iterator / stats observers, reopening with the configuration presets - read-only
+/// among them -, copy_from_simd from a with_capacity_simd source), over every element type, sizes around the 64-byte SIMD
+/// threshold and the 4096-byte prefetch threshold of copy_from_simd
+fn gen_mv_wide(r: &mut Rng, i: usize) -> (String, usize, f64, bool, Vec<Vec<u64>>, u64) {
+    let ty = MV_TYPES[i % MV_TYPES.len()].to_string();
+    let es = ty_es(&ty).max(1) as u64;
+    let ic = *r.pick(&[0usize, 1, 3, 8, 16, 63, 64, 100, 130, 512]);
+    let growth = *r.pick(&[1.0f64, 1.1, 1.5, 1.618, 2.0]);
+    let sow = r.chance(1, 5);
+    // creation with a preset (its initial capacity, growth factor and sync_on_write): memory_optimized, the builder's, the default
+    let preset = if i % 7 == 3 { *r.pick(&[5u64, 7, 6]) } else { 0 };
+    let n = r.range(4, if sow { 9 } else { 14 });
+    let mut ops: Vec<Vec<u64>> = vec![];
+    let mut len: u64 = 0;
+    let val = |r: &mut Rng| -> u64 { match r.below(4) { 0 => r.next(), 1 => u64::MAX, _ => 1 + r.below(250) } };
+    // element counts whose byte size sits at 63/64/65 (SIMD threshold) and 4095/4096/4097 (prefetch threshold)
+    let around = |r: &mut Rng| -> u64 { let b = *r.pick(&[64u64, 64, 64, 4096]); let k = (b + es - 1) / es; match r.below(4) { 0 => k.saturating_sub(1), 1 => k, 2 => k + 1, _ => 1 + r.below(20) } };
+    // the history starts with some content
+    { let c = around(r).min(600); ops.push(vec![if r.chance(1, 2) { 8 } else { 9 }, c, r.next()]); len += c; }
+    for _ in 0..n {
+        match r.below(22) {
+            0..=1 => { ops.push(vec![0, val(r)]); len += 1; }
+            2 => { ops.push(vec![1]); len = len.saturating_sub(1); }
+            3 => { let i = if len > 0 { r.below(len) } else { 0 }; ops.push(vec![2, i, val(r)]); }
+            4 => { let c = around(r).min(600); ops.push(vec![9, c, r.next()]); len += c; }
+            5..=7 => { // pop_bulk_simd: around the SIMD threshold, everything, one too many
+                let c = match r.below(6) { 0 => len, 1 => len + 1, 2 => 0, _ => around(r).min(len) }; ops.push(vec![13, c]); if c <= len { len -= c; } }
+            8..=10 => { // fill_range_simd: inside, to the end, past the end, empty and reversed ranges
+                let (s, e) = match r.below(7) { 0 => (0, len), 1 => (len, len), 2 => (0, len + 1), 3 => { let s = r.below(len + 1); (s, (s + around(r)).min(len)) }, 4 => { let e = r.below(len + 1); (e.saturating_sub(around(r)), e) }, 5 => (r.below(len + 1), 0), _ => { let s = r.below(len + 1); (s, s + r.below(len - s + 1)) } };
+                ops.push(vec![14, s, e, val(r)]); }
+            11..=12 => { let s = r.below(len + 1); let e = match r.below(3) { 0 => len, 1 => (s + around(r)).min(len), _ => s + r.below(len - s + 1) };
+                         let p = if r.chance(1, 2) || e == s { u64::MAX } else { match r.below(3) { 0 => 0, 1 => e - s - 1, _ => r.below(e - s) } }; ops.push(vec![15, s, e, p]); }
+            13..=14 => { ops.push(vec![16, *r.pick(&[1u64, 1, 2, 7, 64]), r.next()]); }
+            15..=16 => { let k = *r.pick(&[1u64, 1, 3, 4, 5, 6, 7, 8, 0]); ops.push(vec![17, k]);
+                         if matches!(k, 1 | 8) {
+                             // a read-only phase: whatever is asked of the vector, it presents the same content when it is opened for writing again
+                             for _ in 0..r.range(2, 4) { match r.below(8) { 0 => ops.push(vec![0, val(r)]), 1 => ops.push(vec![16, 1, r.next()]), 2 => ops.push(vec![14, 0, len.min(70), val(r)]), 3 => ops.push(vec![13, 1]),
+                                                                             4 => ops.push(vec![2, 0, val(r)]), 5 => ops.push(vec![4]), 6 => ops.push(vec![9, 3, r.next()]), _ => ops.push(vec![7, len + 2, val(r)]) } }
+                             ops.push(vec![17, *r.pick(&[0u64, 5, 6])]); ops.push(vec![18]);
+                         } else if r.chance(1, 2) { ops.push(vec![0, val(r)]); len += 1; } }
+            17 => ops.push(vec![18]),
+            18 => { let c = match r.below(4) { 0 => 0, 1 => around(r), 2 => (ic as u64).max(1) * 2 + 1, _ => 1025 }; ops.push(vec![19, c, r.next()]); len = c; }
+            19 => { ops.push(vec![6]); }
+            20 => { let k = *r.pick(&[0u64, 1, 40]); ops.push(vec![7, k.min(len + 60), val(r)]); len = k.min(len + 60); }
+            _ => ops.push(vec![10]),
+        }
+    }
+    // NB `len` is only the generator's estimate (a read-only phase leaves the vector as it is): every operation is valid on any length
+    if r.chance(1, 2) { ops.push(vec![18]); }
+    if r.chance(9, 10) { ops.push(vec![if r.chance(1, 3) { 11 } else { 10 }]); }
+    (ty, ic, growth, sow, ops, preset)
+}
+/// sync_on_write: every content-changing entry point as the *last* operation of a history (no sync() after it): the file must
+/// hold what the vector held; i = which entry point
+fn gen_mv_sow(r: &mut Rng, i: usize) -> (String, usize, f64, bool, Vec<Vec<u64>>, u64) {
+    let ty = MV_TYPES[(i * 3) % 10].to_string();
+    let mut ops: Vec<Vec<u64>> = vec![vec![9, 70, r.next()], vec![10]];   // (one bulk push: an extend under sync_on_write syncs 70 times)
+    let last: Vec<u64> = match i % 11 {
+        0 => vec![0, 5], 1 => vec![1], 2 => vec![3, 9], 3 => vec![4], 4 => vec![7, 90, 3], 5 => vec![8, 5, r.next()], 6 => vec![9, 70, r.next()],
+        7 => vec![12, 40, r.next()], 8 => vec![13, 65], 9 => vec![14, 2, 69, 7], _ => vec![19, 30, r.next()] };
+    ops.push(last);
+    ops.push(vec![18]);
+    // created with sync_on_write, or switched to it by reopening with the persistent_cache preset / the builder's configuration
+    match i % 3 { 0 => (ty, 16, 1.618, true, ops, 0), 1 => { ops.insert(2, vec![17, 3]); (ty, 16, 1.5, false, ops, 0) } _ => (ty, 0, 2.0, false, ops, 7) }
+}
+/// sizes that cross the 64 KiB minimum mapping of a vector file (beyond it the mapping is exactly as long as the file) and
+/// the 8192 / 16384-element presets: bulk operations and growth across the boundary, then sync, reopen, read everything
+fn gen_mv_big(r: &mut Rng, i: usize) -> (String, usize, f64, bool, Vec<Vec<u64>>, u64) {
+    let mut ops: Vec<Vec<u64>> = vec![];
+    let s = r.next();
+    match i % 8 {
+        0 => { ops.push(vec![8, 65456, s]); ops.push(vec![10]); ops.push(vec![0, 7]); ops.push(vec![11]); ops.push(vec![13, 65]); ops.push(vec![10]); ("u8".into(), 65456, 1.618, false, ops, 0) }      // 80 + 65456 = 65536 exactly, then one more
+        1 => { ops.push(vec![9, 65457, s]); ops.push(vec![14, 100, 65400, 9]); ops.push(vec![11]); ops.push(vec![13, 65000]); ops.push(vec![6]); ops.push(vec![10]); ("u8".into(), 65000, 1.1, false, ops, 0) }
+        2 => { ops.push(vec![8, 8190, s]); ops.push(vec![10]); ops.push(vec![0, 1]); ops.push(vec![0, 2]); ops.push(vec![0, 3]); ops.push(vec![11]); ("u64".into(), 0, 1.618, false, ops, 4) }           // performance_optimized: 8192 x 8 bytes
+        3 => { ops.push(vec![12, 70000, s]); ops.push(vec![10]); ops.push(vec![16, 4099, s]); ops.push(vec![11]); ops.push(vec![3, 10]); ops.push(vec![6]); ops.push(vec![10]); ("u16".into(), 100, 1.5, false, ops, 0) }
+        4 => { ops.push(vec![19, 9000, s]); ops.push(vec![0, 5]); ops.push(vec![11]); ops.push(vec![15, 0, 9001, 9000]); ops.push(vec![13, 8192]); ops.push(vec![10]); ("i64".into(), 16, 2.0, false, ops, 0) }
+        5 => { ops.push(vec![9, 16384, s]); ops.push(vec![0, 9]); ops.push(vec![1]); ops.push(vec![1]); ops.push(vec![17, 3]); ops.push(vec![0, 4]); ("u32".into(), 0, 2.0, true, ops, 3) }             // persistent_cache: sync_on_write, 16384 elements
+        6 => { ops.push(vec![7, 5462, 3]); ops.push(vec![10]); ops.push(vec![8, 3, s]); ops.push(vec![14, 5400, 5465, 1]); ops.push(vec![11]); ("u128".into(), 4091, 1.0, false, ops, 0) }       // 80 + 4091*16 = 65536
+        _ => { ops.push(vec![8, 21900, s]); ops.push(vec![10]); ops.push(vec![19, 30000, s]); ops.push(vec![11]); ops.push(vec![0, 1]); ops.push(vec![10]); ("b3".into(), 21818, 1.618, false, ops, 0) }      // 80 + 21818*3 = 65534
+    }
+}
 // ------------------------------------------------------------------ PlainBlobStore
 // ops: [0, hex] put | [1, k] remove the k-th live id | [2] drop and open the directory again | [3, id] remove an id that holds no record
+// oracle breadth: [4, [hex, ..]] put_batch | [5, [k, ..]] remove_batch (k < 100: the k-th live id, else the absent id k; repeats allowed)
+//                 [6] observers: get_batch, iter_blobs, len/is_empty, contains/size, flush, base_dir | [7] drop and create_new (empties the directory)
 // leftover > 0: temporary files `.1.tmp` .. `.6.tmp` of that many bytes exist before the history starts (what interrupted
 // puts leave behind); a later put with that id must publish exactly its own data
-fn plain_case(cx: &mut Ctx, ops: &[Value], leftover: usize, exhaustive: bool) {
+// foreign: names of files that are in the directory before the history starts and are not records of the store (a name that
+// is not the decimal rendering of an id names no record: "007", "+3", "x", ".7.tmp.bak")
+fn plain_case(cx: &mut Ctx, ops: &[Value], leftover: usize, exhaustive: bool) { plain_case_in(cx, ops, leftover, exhaustive, &[]) }
+fn plain_case_in(cx: &mut Ctx, ops: &[Value], leftover: usize, exhaustive: bool, foreign: &[String]) {
+    use zipora::blob_store::BatchBlobStore;
     let cell = "PlainBlobStore";
-    let cj = json!({"cell": "plain", "ops": ops, "leftover": leftover, "exhaustive": exhaustive});
+    let mut cj = json!({"cell": "plain", "ops": ops, "leftover": leftover, "exhaustive": exhaustive});
+    if !foreign.is_empty() { cj["foreign"] = json!(foreign); }
     dbg_case(&cj);
     cx.sum.eval(cell, &cj.to_string(), ops.len() >= 2);
     cx.sum.cell_status(cell, "M+S");
@@ -1009,6 +1383,12 @@ fn plain_case(cx: &mut Ctx, ops: &[Value], leftover: usize, exhaustive: bool) {
             init.insert(format!("store/.{}.tmp", id), g);
         }
     }
+    for (i, name) in foreign.iter().enumerate() {
+        if name.is_empty() || name.contains('/') || name.parse::<u32>().map(|id| id.to_string() == *name).unwrap_or(false) { continue; }
+        let g = vec![0xF0u8 | i as u8; 3 + i];
+        std::fs::write(format!("{}/{}", sdir, name), &g).unwrap();
+        init.insert(format!("store/{}", name), g);
+    }
     let mut shadow: BTreeMap<u32, Vec<u8>> = BTreeMap::new();
     let st_json = |m: &BTreeMap<u32, Vec<u8>>| { let mut o = serde_json::Map::new(); for (k, v) in m { o.insert(k.to_string(), json!(hex(v))); } json!({"records": Value::Object(o)}) };
     let mut states = vec![]; let mut marks = vec![];
@@ -1016,6 +1396,7 @@ fn plain_case(cx: &mut Ctx, ops: &[Value], leftover: usize, exhaustive: bool) {
     let mut put_segs: Vec<(usize, usize, u32)> = vec![];
     let mut hops: Vec<String> = vec![];       // the history as the model's phop list
     let mut volume = 0usize;
+    let mut modelled = foreign.is_empty();
     trace::start(&dir);
     let res = guarded(|| {
         let mut st = match PlainBlobStore::new(&sdir) { Ok(s) => s, Err(e) => { problem = Some(e.to_string()); return; } };
@@ -1034,6 +1415,43 @@ fn plain_case(cx: &mut Ctx, ops: &[Value], leftover: usize, exhaustive: bool) {
                 2 => { hops.push("HReopen".into()); drop(st); st = match PlainBlobStore::new(&sdir) { Ok(s) => s, Err(e) => { problem = Some(e.to_string()); return; } }; }
                 3 => { let id = op[1].as_u64().unwrap_or(0) as u32;
                        if !shadow.contains_key(&id) { hops.push(format!("HRemove {}", id)); if st.remove(id).is_ok() { problem = Some(format!("op {}: remove of the absent id {} succeeded", k, id)); return; } } }
+                4 => { let blobs: Vec<Vec<u8>> = op[1].as_array().map(|a| a.iter().map(|h| unhex(h.as_str().unwrap_or(""))).collect()).unwrap_or_default();
+                       for b in &blobs { hops.push(format!("HPut {}", coq_bytes(b))); volume += b.len(); }
+                       // every record of the batch is a boundary: an interrupted batch leaves a prefix of it
+                       let before = marks.last().copied().unwrap_or(0);
+                       match st.put_batch(blobs.clone()) {
+                           Ok(ids) => { if ids.len() != blobs.len() { problem = Some(format!("op {}: put_batch of {} records returned {} ids", k, blobs.len(), ids.len())); return; }
+                                        for (j, (id, b)) in ids.iter().zip(blobs.iter()).enumerate() {
+                                            if shadow.contains_key(id) { problem = Some(format!("op {}: put_batch reused live id {}", k, id)); return; }
+                                            shadow.insert(*id, b.clone());
+                                            if j + 1 < blobs.len() { states.push(st_json(&shadow)); marks.push(before); } } }
+                           Err(e) => { problem = Some(format!("op {}: put_batch failed: {}", k, e)); return; } } }
+                5 => { let live: Vec<u32> = shadow.keys().copied().collect();
+                       let ids: Vec<u32> = op[1].as_array().map(|a| a.iter().map(|x| { let v = x.as_u64().unwrap_or(0); if v < 100 && !live.is_empty() { live[v as usize % live.len()] } else { v as u32 } }).collect()).unwrap_or_default();
+                       let before = marks.last().copied().unwrap_or(0);
+                       let mut expect = 0usize; let mut sh2 = shadow.clone(); let mut mids = vec![];
+                       for id in &ids { hops.push(format!("HRemove {}", id)); if sh2.remove(id).is_some() { expect += 1; mids.push(st_json(&sh2)); } }
+                       match st.remove_batch(ids.clone()) {
+                           Ok(n) => { if n != expect { problem = Some(format!("op {}: remove_batch({:?}) removed {} records, {} of them existed", k, ids, n, expect)); return; }
+                                      mids.pop(); for m in mids { states.push(m); marks.push(before); } shadow = sh2; }
+                           Err(e) => { problem = Some(format!("op {}: remove_batch failed: {}", k, e)); return; } } }
+                6 => { let mut ids: Vec<u32> = shadow.keys().copied().collect(); ids.push(shadow.keys().last().map(|x| x + 1).unwrap_or(1)); ids.push(0);
+                       let got = st.get_batch(ids.clone());
+                       let want: Vec<Option<Vec<u8>>> = ids.iter().map(|i| shadow.get(i).cloned()).collect();
+                       if got.as_ref().ok() != Some(&want) { problem = Some(format!("op {}: get_batch({:?}) differs from the records put", k, ids)); return; }
+                       let mut it: Vec<(u32, Vec<u8>)> = vec![];
+                       for x in st.iter_blobs() { match x { Ok(p) => it.push(p), Err(e) => { problem = Some(format!("op {}: iter_blobs failed: {}", k, e)); return; } } }
+                       if it != shadow.iter().map(|(a, b)| (*a, b.clone())).collect::<Vec<_>>() { problem = Some(format!("op {}: iter_blobs yields other (id, record) pairs than were put", k)); return; }
+                       if st.len() != shadow.len() || st.is_empty() != shadow.is_empty() { problem = Some(format!("op {}: len() = {}, {} records are live", k, st.len(), shadow.len())); return; }
+                       for (id, d) in &shadow { if !st.contains(*id) || st.size(*id).ok().flatten() != Some(d.len()) { problem = Some(format!("op {}: contains/size of record {} disagree with the record put", k, id)); return; } }
+                       if st.flush().is_err() || st.base_dir() != std::path::Path::new(&sdir) { problem = Some(format!("op {}: flush()/base_dir()", k)); return; } }
+                7 if shadow.len() > 10 => {}     // (every subset of the records is a crash state of create_new: keep them enumerable)
+                7 => { modelled = false; drop(st);
+                       // an interrupted create_new has removed some of the records: every subset of them is a boundary
+                       let before = marks.last().copied().unwrap_or(0);
+                       let live: Vec<u32> = shadow.keys().copied().collect();
+                       { for m in 1u32..(1 << live.len()) - 1 { let mut s2 = shadow.clone(); for (j, id) in live.iter().enumerate() { if m >> j & 1 == 1 { s2.remove(id); } } states.push(st_json(&s2)); marks.push(before); } }
+                       st = match PlainBlobStore::create_new(&sdir) { Ok(s) => s, Err(e) => { problem = Some(e.to_string()); return; } }; shadow.clear(); }
                 _ => {}
             }
             for (id, d) in &shadow { if st.get(*id).ok().as_ref() != Some(d) { problem = Some(format!("op {}: live store does not return record {} as it was put ({} bytes, got {:?} bytes)", k, id, d.len(), st.get(*id).ok().map(|x| x.len()))); return; } }
@@ -1042,17 +1460,18 @@ fn plain_case(cx: &mut Ctx, ops: &[Value], leftover: usize, exhaustive: bool) {
     });
     let tr = trace::stop();
     if let Err(p) = res { problem = Some(format!("writer panicked: {}", p)); }
-    if let Some(p) = problem { cx.sum.fail(cell, None, cj, &p); return; }
+    if let Some(p) = problem { cx.sum.fail(cell, None, cj, &p); let _ = std::fs::remove_dir_all(&dir); return; }
     let mut sim = init.clone();
     for op in &tr { apply(&mut sim, op); }
     if let Err(w) = tracer_in_sync(&dir, &sim) { panic!("C19 tracer out of sync with the file system:{}", w); }
     // an arbitrary cut of a finished, fsynced record file is not detectable in a format without framing
+    let foreign_paths: Vec<String> = foreign.iter().map(|n| format!("store/{}@", n)).collect();
     let class_of = |out: &Value, kind: &str, _why: &str| -> Option<&'static str> {
-        if kind.starts_with("truncate:") && !kind.contains(".tmp@") && out.get("ok").is_some() { Some("plain_record_unframed") } else { None }
+        if kind.starts_with("truncate:") && !kind.contains(".tmp@") && !foreign_paths.iter().any(|f| kind.ends_with(f.as_str()) || kind.contains(f.as_str())) && out.get("ok").is_some() { Some("plain_record_unframed") } else { None }
     };
     for (a, b, id) in put_segs { if b <= tr.len() && a < b { protocol_case(cx, &tr[a..b], &format!("store/{}", id), "PlainBlobStore::put"); } }
     // the whole history refined to named file operations by the model (ids from the model's counter and rescan)
-    if volume <= 2500 && cx.n_plain < if cx.thorough { 500 } else { 48 } && cx.coq_seen.insert(fnv64(cj.to_string().as_bytes(), 0x706c)) {
+    if modelled && volume <= 2500 && cx.n_plain < if cx.thorough { 500 } else { 48 } && cx.coq_seen.insert(fnv64(cj.to_string().as_bytes(), 0x706c)) {
         let name = |p: &str| coq_bytes(p.strip_prefix("store/").unwrap_or(p).as_bytes());
         let terms: Vec<String> = tr.iter().map(|o| match o {
             Op::Open { p, creat, trunc } => format!("NOpen {} {} {}", name(p), coq_bool(*creat), coq_bool(*trunc)),
@@ -1083,15 +1502,64 @@ fn gen_plain(r: &mut Rng) -> Vec<Value> {
     ops
 }
 
+/// oracle breadth: the batch entry points, the observers and create_new mixed into put / remove / reopen histories
+fn gen_plain_wide(r: &mut Rng) -> Vec<Value> {
+    let n = r.range(3, 8);
+    let mut ops = vec![];
+    let rec = |r: &mut Rng| -> String { let len = *r.pick(&[0usize, 1, 2, 5, 17, 40, 100, 4095, 4096, 4097]); let len = if r.chance(2, 3) { len.min(40) } else { len }; hex(&r.bytes(len)) };
+    for _ in 0..n {
+        match r.below(12) {
+            0..=1 => ops.push(json!([0, rec(r)])),
+            2..=4 => { let k = *r.pick(&[0usize, 1, 2, 3, 5]); let v: Vec<String> = (0..k).map(|_| rec(r)).collect(); ops.push(json!([4, v])); }
+            5..=6 => { let k = r.range(0, 4); let mut v: Vec<u64> = (0..k).map(|_| if r.chance(1, 4) { *r.pick(&[100u64, 4294967295, 1000]) } else { r.below(6) }).collect();
+                       // an id that is not there in front of ones that are; the same record twice
+                       match r.below(4) { 0 => v.insert(0, 1000), 1 => { if let Some(&x) = v.first() { v.push(x); } } _ => {} }
+                       ops.push(json!([5, v])); }
+            7 => ops.push(json!([6])),
+            8 => ops.push(json!([1, r.below(8)])),
+            9 => ops.push(json!([2])),
+            10 => ops.push(json!([7])),
+            _ => ops.push(json!([3, *r.pick(&[0u64, 2, 9])])),
+        }
+    }
+    if r.chance(1, 2) { ops.push(json!([6])); }
+    ops
+}
+
 // ------------------------------------------------------------------ write-once files (reorder map, zip-offset store, dictionary, raw mmap stream)
 fn reorder_state(vals: &[u64]) -> Value { json!({"size": vals.len(), "values": vals}) }
+/// big maps are compared through a digest of their values (plus the first and last eight)
+fn reorder_digest(vals: &[u64]) -> Value {
+    let mut h = 0xcbf29ce484222325u64;
+    for v in vals { h = fnv64(&v.to_le_bytes(), h); }
+    let n = vals.len();
+    let ends: Vec<u64> = vals.iter().enumerate().filter(|(i, _)| *i < 8 || *i + 8 >= n).map(|(_, v)| *v).collect();
+    json!({"size": n, "count": n, "digest": format!("{:016x}", h), "ends": ends})
+}
+/// the values of a build: spelled out (`values`), or as runs `[start, length]` that step by the map's direction
+fn reorder_values(b: &Value) -> Vec<u64> {
+    let neg = b["neg"].as_bool().unwrap_or(false);
+    if let Some(rs) = b["runs"].as_array() {
+        let mut v = vec![];
+        for run in rs { let s0 = run[0].as_u64().unwrap_or(0); let n = run[1].as_u64().unwrap_or(0).min(3_000_000);
+            for i in 0..n { v.push(if neg { s0.wrapping_sub(i) } else { s0.wrapping_add(i) } & 0xFF_FFFF_FFFF); } }
+        return v;
+    }
+    b["values"].as_array().map(|a| a.iter().map(|x| x.as_u64().unwrap_or(0)).collect()).unwrap_or_default()
+}
 
 /// builds = successive files written to the same path (a later build overwrites an earlier one)
+/// oracle breadth, `mode` of a build: 1 = abandoned (all values pushed, the builder dropped without finish): the file stays as it
+/// was; 2 = finish() one value short: must be refused, the file stays as it was; 3 = a refused push (value of more than 39 bits)
+/// in the middle and a refused push beyond the announced size, then finish(): the map holds exactly the accepted values
 fn reorder_case(cx: &mut Ctx, builds: &[Value], exhaustive: bool) {
     let cell = "ZReorderMap";
     let cj = json!({"cell": "reorder", "builds": builds, "exhaustive": exhaustive});
     dbg_case(&cj);
-    cx.sum.eval(cell, &cj.to_string(), builds.iter().any(|b| b["values"].as_array().map(|a| a.len()).unwrap_or(0) >= 2));
+    let all: Vec<Vec<u64>> = builds.iter().map(reorder_values).collect();
+    cx.sum.eval(cell, &cj.to_string(), all.iter().any(|v| v.len() >= 2));
+    let digest = all.iter().any(|v| v.len() > 20000);
+    let state_of = |v: &[u64]| if digest { reorder_digest(v) } else { reorder_state(v) };
     let mut r = Rng::new(fnv64(cj.to_string().as_bytes(), 13));
     let dir = cx.fresh_dir("ro");
     let path = format!("{}/m.bin", dir);
@@ -1100,31 +1568,43 @@ fn reorder_case(cx: &mut Ctx, builds: &[Value], exhaustive: bool) {
     let mut refused = false;
     let mut last: (Vec<u64>, bool) = (vec![], false);
     let mut build_segs: Vec<(usize, usize)> = vec![];
+    let mut plain_builds = true;
     trace::start(&dir);
     let res = guarded(|| {
         for (k, b) in builds.iter().enumerate() {
-            let vals: Vec<u64> = b["values"].as_array().map(|a| a.iter().map(|x| x.as_u64().unwrap_or(0)).collect()).unwrap_or_default();
+            let vals: &Vec<u64> = &all[k];
             let neg = b["neg"].as_bool().unwrap_or(false);
+            let mode = b["mode"].as_u64().unwrap_or(0);
+            if mode != 0 { plain_builds = false; }
+            let t0 = trace::len();
             let mut bl = match ZReorderMapBuilder::new(&path, vals.len(), if neg { -1 } else { 1 }) { Ok(b) => b, Err(e) => { problem = Some(format!("build {}: new failed: {}", k, e)); return; } };
+            let stop = if mode == 2 { vals.len().saturating_sub(1) } else { vals.len() };
             // "bad": [[i, v], ..] - before value i a value above the 40-bit limit is pushed; it is refused and the build carries
             // on as if it had not been attempted (the file is the one of `values` alone)
             let bad: Vec<(usize, u64)> = b["bad"].as_array().map(|a| a.iter().map(|x| (x[0].as_u64().unwrap_or(0) as usize, x[1].as_u64().unwrap_or(u64::MAX))).collect()).unwrap_or_default();
-            for i in 0..=vals.len() {
-                for (_, bv) in bad.iter().filter(|(bi, bv)| *bi == i && *bv > 0x7F_FFFF_FFFF) {
+            for (j, &v) in vals[..stop].iter().enumerate() {
+                for (_, bv) in bad.iter().filter(|(bi, bv)| *bi == j && *bv > 0x7F_FFFF_FFFF) {
                     if bl.push(*bv as usize).is_ok() { problem = Some(format!("build {}: push({:#x}) accepted although the value does not fit the 40-bit field", k, bv)); return; }
                 }
-                if i < vals.len() { if let Err(_) = bl.push(vals[i] as usize) { refused = true; return; } }
+                if mode == 3 && j == vals.len() / 2 { if bl.push(1usize << 39).is_ok() { problem = Some(format!("build {}: push of a 40-bit value was accepted", k)); return; } }
+                if let Err(_) = bl.push(v as usize) { refused = true; return; }
             }
-            let t0 = build_segs.last().map(|s: &(usize, usize)| s.1).unwrap_or(0);
-            if let Err(e) = bl.finish() { problem = Some(format!("build {}: finish failed: {}", k, e)); return; }
-            build_segs.push((t0, trace::len()));
-            states.push(reorder_state(&vals)); marks.push(trace::len());
-            last = (vals, neg);
+            if mode == 3 && bl.push(7).is_ok() { problem = Some(format!("build {}: push beyond the announced size was accepted", k)); return; }
+            match mode {
+                1 => { drop(bl); }
+                2 if !vals.is_empty() => { if bl.finish().is_ok() { problem = Some(format!("build {}: finish() succeeded although a value was missing", k)); return; } }
+                _ => {
+                    if let Err(e) = bl.finish() { problem = Some(format!("build {}: finish failed: {}", k, e)); return; }
+                    build_segs.push((t0, trace::len()));
+                    states.push(state_of(vals)); marks.push(trace::len());
+                    last = (vals.clone(), neg);
+                }
+            }
         }
     });
     let tr = trace::stop();
     if let Err(p) = res { problem = Some(format!("writer panicked: {}", p)); }
-    if let Some(p) = problem { cx.sum.fail(cell, None, cj, &p); return; }
+    if let Some(p) = problem { cx.sum.fail(cell, None, cj, &p); let _ = std::fs::remove_dir_all(&dir); return; }
     if refused { cx.sum.dist("reorder_push_refused"); let _ = std::fs::remove_dir_all(&dir); return; }
     let mut sim = Disk::new();
     for op in &tr { apply(&mut sim, op); }
@@ -1132,7 +1612,7 @@ fn reorder_case(cx: &mut Ctx, builds: &[Value], exhaustive: bool) {
     let none = |_: &Value, _: &str, _: &str| -> Option<&'static str> { None };
     for (a, b) in &build_segs { if *b <= tr.len() && a < b { protocol_case(cx, &tr[*a..*b], "m.bin", "ZReorderMapBuilder::finish"); } }
     // the builder's writes: header, every flush of the 4096-byte buffer, the rest in finish() - as the model refines them
-    if let (Some((a, b)), true) = (build_segs.last().copied(), build_segs.len() == builds.len()) {
+    if let (Some((a, b)), true) = (build_segs.last().copied(), plain_builds && build_segs.len() == builds.len()) {
         let seg = &tr[a..b.min(tr.len())];
         let bytes: usize = seg.iter().map(|o| if let Op::Write { data, .. } = o { data.len() } else { 0 }).sum();
         let big = bytes > 1300;
@@ -1144,9 +1624,10 @@ fn reorder_case(cx: &mut Ctx, builds: &[Value], exhaustive: bool) {
         }
     }
     let fin_state = states.last().cloned();
-    let fin = judge_trace(cx, cell, "reorder", &none, &cj, &json!({}), "m.bin", false, &tr, &marks, &states, fin_state.as_ref(), &[16, 21], &mut r, exhaustive, None);
+    let extra = if digest { json!({"digest": true}) } else { json!({}) };
+    let fin = judge_trace(cx, cell, "reorder", &none, &cj, &extra, "m.bin", false, &tr, &marks, &states, fin_state.as_ref(), &[16, 21], &mut r, exhaustive, None);
     if let Some(f) = fin.as_ref().and_then(|d| d.get("m.bin")) {
-        if f.len() <= 1200 && cx.old_used() < cx.budget {
+        if f.len() <= 1200 && last.0.len() <= 4000 && cx.old_used() < cx.budget {
             // the builder emits the modelled format; the reader agrees with the model on the file and on damaged copies
             cx.shards.push(format!("(XOld (CRoEnc {} {} {}))", coq_n_list(last.0.iter().map(|&v| v as u128)), coq_bool(last.1), coq_bytes(f)),
                            json!({"cell": "reorder_encode", "values": last.0, "neg": last.1}));
@@ -1201,6 +1682,37 @@ fn gen_reorder(r: &mut Rng) -> Vec<Value> {
     out
 }
 
+/// oracle breadth: abandoned and refused builds between (and over) finished ones, run lengths around the variable-length
+/// integer boundaries 127/128, 16383/16384, 2097151/2097152 (runs are named by [start, length] in the case), maps of 2^16 and
+/// 2^21 values, descending runs down to 0 and ascending runs up to 2^39 - 1
+fn gen_reorder_wide(r: &mut Rng, i: usize) -> Vec<Value> {
+    let top: u64 = 0x7FFFFFFFFF;
+    let neg = r.chance(1, 3);
+    let small = |r: &mut Rng, neg: bool| -> Value {
+        let k = r.range(1, 5); let mut runs = vec![]; let mut base = 1000 + r.below(1000);
+        for _ in 0..k { let n = *r.pick(&[1u64, 2, 3, 127, 128, 129, 40]); runs.push(json!([base + if neg { n } else { 0 }, n])); base += n + 2 + r.below(500); }
+        json!({"runs": runs, "neg": neg})
+    };
+    match i % 8 {
+        // a finished map, then a build that is abandoned / one value short / has refused pushes, (then another finished one)
+        0 | 1 | 2 => { let mut v = vec![]; if r.chance(3, 4) { v.push(small(r, neg)); }
+                       let ng = r.chance(1, 3); let mut b = small(r, ng); b["mode"] = json!(1 + (i % 3) as u64); v.push(b);
+                       if r.chance(1, 2) { let ng = r.chance(1, 3); v.push(small(r, ng)); } v }
+        3 => { // run lengths at the varint boundaries
+               let lens = [16383u64, 16384, 16385, 127, 128, 2, 1]; let mut runs = vec![]; let mut base = 50_000u64;
+               for &n in lens.iter() { runs.push(json!([if neg { base + n } else { base }, n])); base += n + 10; }
+               vec![json!({"runs": runs, "neg": neg})] }
+        4 => vec![json!({"runs": [[if neg { 2097151 + 5 } else { 5 }, 2097151], [if neg { top } else { top - 2097152 + 1 }, 2097152u64]], "neg": neg})],
+        5 => vec![json!({"runs": [[if neg { 65535 } else { 0 }, 65536], [if neg { 200000 } else { 100000 }, 65537], [300001, 1]], "neg": neg, "mode": if r.chance(1, 2) { 3 } else { 0 }})],
+        6 => { // many records and a long run between them: several flushes of the write buffer, then one record that spans a flush
+               let mut runs = vec![]; let mut base = 10u64;
+               for k in 0..(900 + r.below(300)) { let n = if k == 450 { 70000 } else { 1 + (k % 3 == 0) as u64 }; runs.push(json!([if neg { base + n } else { base }, n])); base += n + 3; }
+               vec![json!({"runs": runs, "neg": neg})] }
+        _ => { // the ends of the value range
+               if neg { vec![json!({"runs": [[5, 6], [top, 3], [0, 1]], "neg": true})] } else { vec![json!({"runs": [[top - 2, 3], [0, 5], [top, 1]], "neg": false, "mode": *r.pick(&[0u64, 3])})] } }
+    }
+}
+
 /// many short runs: `target` bytes of records (5 bytes per single value, 6 per run of 2..127) so that the builder's
 /// 4096-byte write buffer is flushed once, twice, several times before finish(); `target` = 0: `n` random short runs
 fn gen_reorder_dense(r: &mut Rng, target: usize, n: usize) -> Vec<Value> {
@@ -1231,7 +1743,7 @@ fn once_case(cx: &mut Ctx, cell: &'static str, key: &'static str, cj: Value, sta
              img_state: Option<&dyn Fn(&Disk) -> Vec<Value>>) -> Option<(Disk, Vec<Op>)> {
     dbg_case(&cj);
     cx.sum.eval(cell, &cj.to_string(), true);
-    cx.sum.cell_status(cell, if key == "dict" { "S-only" } else { "M+S" });
+    cx.sum.cell_status(cell, if key == "dict" || cell.starts_with("NestLouds") { "S-only" } else { "M+S" });
     let mut r = Rng::new(fnv64(cj.to_string().as_bytes(), 17));
     let dir = cx.fresh_dir("on");
     let path = format!("{}/{}", dir, fname);
@@ -1358,20 +1870,67 @@ fn gen_zip(r: &mut Rng, i: usize) -> (Vec<String>, u8) {
     };
     (recs.iter().map(|b| hex(b)).collect(), ck)
 }
-fn dict_case(cx: &mut Ctx, text: &[u8], minp: usize, maxp: usize, exhaustive: bool) {
-    let cj = json!({"cell": "dict", "text": hex(text), "min": minp, "max": maxp, "exhaustive": exhaustive});
-    let state = json!({"text": hex(text), "min": minp, "max": maxp});
+fn dict_case(cx: &mut Ctx, text: &[u8], minp: usize, maxp: usize, exhaustive: bool) { dict_case_opts(cx, &json!({"text": hex(text)}), minp, maxp, exhaustive, &json!({})) }
+/// src: {"text": hex} or {"gen": [kind, n, seed]} (0 = random letters of an alphabet of `seed % 5 + 2`, 1 = repeated phrases, 2 = bytes)
+fn dict_text(src: &Value) -> Vec<u8> {
+    if let Some(g) = src["gen"].as_array() {
+        let (kind, n, seed) = (g[0].as_u64().unwrap_or(0), (g[1].as_u64().unwrap_or(0) as usize).min(200_000), g[2].as_u64().unwrap_or(0));
+        let mut r = Rng::new(seed);
+        return match kind {
+            0 => { let a = seed % 5 + 2; (0..n).map(|_| b'a' + r.below(a) as u8).collect() }
+            1 => { let words: Vec<Vec<u8>> = (0..12).map(|_| { let l = r.range(3, 12) as usize; (0..l).map(|_| b'a' + r.below(26) as u8).collect() }).collect();
+                   let mut v = vec![]; while v.len() < n { let w = r.pick(&words[..]).clone(); v.extend_from_slice(&w); v.push(b' '); } v.truncate(n); v }
+            _ => r.bytes(n),
+        };
+    }
+    unhex(src["text"].as_str().unwrap_or(""))
+}
+/// opts (oracle breadth): min_frequency, max_bfs_depth, sample_ratio (applies to texts of more than 10000 bytes), memory_pool,
+/// external_mode, optimize (optimize_cache() before saving)
+fn dict_case_opts(cx: &mut Ctx, src: &Value, minp: usize, maxp: usize, exhaustive: bool, opts: &Value) {
+    let text = dict_text(src);
+    let mut cj = json!({"cell": "dict", "min": minp, "max": maxp, "exhaustive": exhaustive});
+    if src.get("gen").is_some() { cj["gen"] = src["gen"].clone(); } else { cj["text"] = json!(hex(&text)); }
+    if opts.as_object().map(|o| !o.is_empty()).unwrap_or(false) { cj["opts"] = opts.clone(); }
+    let cell = "SuffixArrayDictionary";
     let none = |_: &Value, _: &str, _: &str| -> Option<&'static str> { None };
-    let mut w = |path: &str| -> Result<(), String> {
+    let ratio = opts["sample_ratio"].as_f64().unwrap_or(1.0);
+    // the dictionary and what it presents before it is saved
+    let built = guarded(|| -> Result<(SuffixArrayDictionary, Value), String> {
         let mut cfg = SuffixArrayDictionaryConfig::default();
-        cfg.min_pattern_length = minp; cfg.max_pattern_length = maxp; cfg.min_frequency = 1;
-        let d = SuffixArrayDictionary::new(text, cfg).map_err(|e| e.to_string())?;
-        if d.data() != text { return Err("dictionary text differs from training data".into()); }
-        d.save_to_file(path).map_err(|e| e.to_string())
+        cfg.min_pattern_length = minp; cfg.max_pattern_length = maxp; cfg.min_frequency = opts["min_frequency"].as_u64().unwrap_or(1) as u32;
+        if let Some(x) = opts["max_bfs_depth"].as_u64() { cfg.max_bfs_depth = x as u32; }
+        cfg.sample_ratio = ratio;
+        if let Some(x) = opts["memory_pool"].as_bool() { cfg.use_memory_pool = x; }
+        if let Some(x) = opts["external_mode"].as_bool() { cfg.external_mode = x; }
+        let mut d = SuffixArrayDictionary::new(&text, cfg).map_err(|e| format!("refused: {}", e))?;
+        let sampled = ratio < 1.0 && text.len() > 10000;
+        if !sampled && d.data() != &text[..] { return Err("dictionary text differs from training data".into()); }
+        if sampled && (d.data().is_empty() || d.data().len() > text.len()) { return Err("sampled dictionary text is empty or longer than the training data".into()); }
+        if opts["optimize"].as_bool().unwrap_or(false) { d.optimize_cache().map_err(|e| format!("optimize_cache failed: {}", e))?; }
+        let st = dict_state(&mut d)?;
+        // serialize / deserialize in memory: the same structure
+        let img = d.serialize().map_err(|e| format!("serialize failed: {}", e))?;
+        let mut back = SuffixArrayDictionary::deserialize(&img).map_err(|e| format!("deserialize(serialize()) failed: {}", e))?;
+        if dict_state(&mut back)? != st { return Err("deserialize(serialize()) presents another dictionary".into()); }
+        Ok((d, st))
+    });
+    let (d, state) = match built {
+        Ok(Ok(x)) => x,
+        Ok(Err(e)) if e.starts_with("refused") => { cx.sum.dist("dict_write_refused"); return; }
+        Ok(Err(e)) => { cx.sum.eval(cell, &cj.to_string(), true); cx.sum.fail(cell, None, cj, &e); return; }
+        Err(p) => { cx.sum.eval(cell, &cj.to_string(), true); cx.sum.fail(cell, None, cj, &format!("building the dictionary panicked: {}", p)); return; }
     };
-    let _ = once_case(cx, "SuffixArrayDictionary", "dict", cj, state, "d.dict", exhaustive, &none, &mut w, &[8], None);
+    let mut w = |path: &str| -> Result<(), String> { d.save_to_file(path).map_err(|e| e.to_string()) };
+    let got = once_case(cx, cell, "dict", cj.clone(), state, "d.dict", exhaustive, &none, &mut w, &[8], None);
+    // the file is the serialized image
+    if let Some((fin, _)) = got {
+        if fin.get("d.dict").map(|f| Some(f) != d.serialize().ok().as_ref()).unwrap_or(true) { cx.sum.fail(cell, None, cj, "the saved file differs from serialize()"); }
+    }
 }
 // ops: ["w", hex] write_slice | ["s", k] seek to capacity * k / 8 | ["x"] seek past the capacity (must be refused) | ["f"] flush | ["t"] truncate
+// oracle breadth: ["g", n, seed] write_slice of n generated bytes | ["o"] flush, drop, MemoryMappedOutput::open (position 0, the capacity
+// is the file length) | ["u8"|"u16"|"u32"|"u64"|"var", v], ["str", s], ["bytes", hex] the DataOutput writers | ["r"] remaining()
 // every history ends with flush, truncate, flush
 fn mmio_case(cx: &mut Ctx, ops: &[Value], initial: usize, exhaustive: bool) {
     let cj = json!({"cell": "mmio", "ops": ops, "initial": initial, "exhaustive": exhaustive});
@@ -1380,26 +1939,44 @@ fn mmio_case(cx: &mut Ctx, ops: &[Value], initial: usize, exhaustive: bool) {
     let mut seeks: Vec<usize> = vec![];
     let mut terms: Vec<String> = vec![]; let mut obs: Vec<[u64; 2]> = vec![];
     let mut volume = 0usize;
+    let mut modelled = true;
+    let mut typed: Vec<Value> = vec![]; let mut typed_only = true;
     // a raw byte stream has no header: any image is "what the file contains"; the reader must serve exactly
     // the bytes present and refuse reads past them; for crash images that is all that is required
     let class_of = |_: &Value, _: &str, _: &str| -> Option<&'static str> { None };
-    let img_state = |d: &Disk| -> Vec<Value> { d.get("o.bin").map(|b| vec![json!({"bytes": hex(b)})]).unwrap_or_default() };
+    let img_state = |d: &Disk| -> Vec<Value> { d.get("o.bin").map(|b| vec![mmio_state(b)]).unwrap_or_default() };
     let mut full: Vec<Value> = ops.to_vec(); full.push(json!(["f"])); full.push(json!(["t"])); full.push(json!(["f"]));
     let mut w = |path: &str| -> Result<(), String> {
         use zipora::DataOutput;
         let mut o = MemoryMappedOutput::create(path, initial).map_err(|e| e.to_string())?;
         for op in &full {
-            match op[0].as_str().unwrap_or("") {
-                "w" => { let d = unhex(op[1].as_str().unwrap_or("")); o.write_slice(&d).map_err(|e| e.to_string())?;
-                         if sh.len() < shp + d.len() { sh.resize(shp + d.len(), 0); } sh[shp..shp + d.len()].copy_from_slice(&d); shp += d.len();
-                         volume += d.len(); terms.push(format!("MWrite {}", coq_bytes(&d))); }
-                "s" => { let p = o.capacity() * (op[1].as_u64().unwrap_or(0) as usize).min(8) / 8; o.seek(p).map_err(|e| e.to_string())?; shp = p; seeks.push(p); terms.push(format!("MSeek {}", p)); }
+            let kind = op[0].as_str().unwrap_or("");
+            // the bytes an operation appends at the position
+            let mut put: Option<Vec<u8>> = None;
+            match kind {
+                "w" => { let d = unhex(op[1].as_str().unwrap_or("")); o.write_slice(&d).map_err(|e| e.to_string())?; terms.push(format!("MWrite {}", coq_bytes(&d))); typed.push(json!(["bytes", hex(&d)])); put = Some(d); }
+                "g" => { modelled = false; let d = Rng::new(op[2].as_u64().unwrap_or(0)).bytes((op[1].as_u64().unwrap_or(0) as usize).min(3 << 20)); o.write_slice(&d).map_err(|e| e.to_string())?; typed_only = false; put = Some(d); }
+                "u8" => { modelled = false; let v = op[1].as_u64().unwrap_or(0); o.write_u8(v as u8).map_err(|e| e.to_string())?; typed.push(json!(["u8", v as u8])); put = Some(vec![v as u8]); }
+                "u16" => { modelled = false; let v = op[1].as_u64().unwrap_or(0) as u16; o.write_u16(v).map_err(|e| e.to_string())?; typed.push(json!(["u16", v])); put = Some(v.to_le_bytes().to_vec()); }
+                "u32" => { modelled = false; let v = op[1].as_u64().unwrap_or(0) as u32; o.write_u32(v).map_err(|e| e.to_string())?; typed.push(json!(["u32", v])); put = Some(v.to_le_bytes().to_vec()); }
+                "u64" => { modelled = false; let v = op[1].as_u64().unwrap_or(0); o.write_u64(v).map_err(|e| e.to_string())?; typed.push(json!(["u64", v])); put = Some(v.to_le_bytes().to_vec()); }
+                "var" => { modelled = false; let mut v = op[1].as_u64().unwrap_or(0); o.write_var_int(v).map_err(|e| e.to_string())?; typed.push(json!(["var", v]));
+                           let mut b = vec![]; loop { let x = (v & 0x7f) as u8; v >>= 7; if v == 0 { b.push(x); break; } b.push(x | 0x80); } put = Some(b); }
+                "str" => { modelled = false; let t = op[1].as_str().unwrap_or("").to_string(); o.write_length_prefixed_string(&t).map_err(|e| e.to_string())?; typed.push(json!(["str", t]));
+                           let mut v = t.len() as u64; let mut b = vec![]; loop { let x = (v & 0x7f) as u8; v >>= 7; if v == 0 { b.push(x); break; } b.push(x | 0x80); } b.extend_from_slice(t.as_bytes()); put = Some(b); }
+                "bytes" => { modelled = false; let d = unhex(op[1].as_str().unwrap_or("")); o.write_bytes(&d).map_err(|e| e.to_string())?; typed.push(json!(["bytes", hex(&d)])); put = Some(d); }
+                "r" => { modelled = false; if o.remaining() != o.capacity() - o.position() { return Err("remaining() differs from capacity() - position()".into()); } continue; }
+                "o" => { modelled = false; typed_only = false; o.flush().map_err(|e| e.to_string())?; let cap = o.capacity(); drop(o); o = MemoryMappedOutput::open(path).map_err(|e| e.to_string())?;
+                         if o.capacity() != cap { return Err(format!("capacity {} after open, the file had {} bytes", o.capacity(), cap)); }
+                         if sh.len() < cap { sh.resize(cap, 0); } shp = 0; }
+                "s" => { typed_only = false; let p = o.capacity() * (op[1].as_u64().unwrap_or(0) as usize).min(8) / 8; o.seek(p).map_err(|e| e.to_string())?; shp = p; seeks.push(p); terms.push(format!("MSeek {}", p)); }
                 "x" => { if o.seek(o.capacity() + 1).is_ok() { return Err("seek past the capacity succeeded".into()); } continue; }
                 "f" => { o.flush().map_err(|e| e.to_string())?; terms.push("MFlush".into()); }
                 "t" => { o.truncate().map_err(|e| e.to_string())?; if sh.len() < shp { sh.resize(shp, 0); } sh.truncate(shp); terms.push("MTruncate".into()); }
                 _ => continue,
             }
-            if o.position() != shp { return Err(format!("position {} after {:?}, expected {}", o.position(), op, shp)); }
+            if let Some(d) = put { if sh.len() < shp + d.len() { sh.resize(shp + d.len(), 0); } sh[shp..shp + d.len()].copy_from_slice(&d); shp += d.len(); volume += d.len(); }
+            if o.position() != shp { return Err(format!("position {} after {}, expected {}", o.position(), brief(op), shp)); }
             obs.push([o.position() as u64, o.capacity() as u64]);
         }
         Ok(())
@@ -1416,23 +1993,52 @@ fn mmio_case(cx: &mut Ctx, ops: &[Value], initial: usize, exhaustive: bool) {
     trace::start(&dir);
     let res = guarded(|| w(&path));
     let tr = trace::stop();
-    match res { Err(p) => { cx.sum.fail(cell, None, cj, &format!("writer panicked: {}", p)); return; }
+    match res { Err(p) => { cx.sum.fail(cell, None, cj, &format!("writer panicked: {}", p)); let _ = std::fs::remove_dir_all(&dir); return; }
                 Ok(Err(e)) => { cx.sum.fail(cell, None, cj, &format!("writer failed: {}", e)); let _ = std::fs::remove_dir_all(&dir); return; }
                 Ok(Ok(())) => {} }
     let mut sim = Disk::new();
     for op in &tr { apply(&mut sim, op); }
     if let Err(w) = tracer_in_sync(&dir, &sim) { panic!("C19 tracer out of sync with the file system:{}", w); }
-    let state = json!({"bytes": hex(&sh)});
+    let state = mmio_state(&sh);
     let states = vec![state.clone()];
     let marks = vec![tr.len()];
     let fin = judge_trace(cx, cell, "mmio", &class_of, &cj, &json!({}), "o.bin", false, &tr, &marks, &states, Some(&state), &[], &mut r, exhaustive, Some(&img_state));
     let _ = std::fs::remove_dir_all(&dir);
+    // a stream written only through the DataOutput writers reads back value by value through DataInput
+    if let (Some(d), true) = (fin.as_ref(), typed_only && !typed.is_empty()) {
+        let out = cx.observe("mmio_typed", &json!({"typed": typed}), d, "o.bin", false);
+        if out.get("ok") != Some(&json!(true)) { let mut c = cj.clone(); c["image"] = json!("clean"); cx.sum.fail(cell, None, c, &format!("what DataOutput wrote does not read back through DataInput: {}", brief(&out))); }
+    }
     if let Some(f) = fin.as_ref().and_then(|d| d.get("o.bin")) {
-        if volume <= 3000 && initial <= 4096 && cx.n_mmio < if cx.thorough { 120 } else { 14 } && cx.coq_seen.insert(fnv64(cj.to_string().as_bytes(), 0x6d6d)) {
+        if modelled && volume <= 3000 && initial <= 4096 && cx.n_mmio < if cx.thorough { 120 } else { 14 } && cx.coq_seen.insert(fnv64(cj.to_string().as_bytes(), 0x6d6d)) {
             cx.n_mmio += 1;
             cx.shards.push(format!("(XMmio {} [{}] [{}] {})", initial, terms.join("; "), obs.iter().map(|o| format!("[{}; {}]", o[0], o[1])).collect::<Vec<_>>().join("; "), coq_bytes(f)),
                            json!({"cell": "mmio_ops", "ops": ops, "initial": initial}));
         }
+    }
+}
+/// oracle breadth: histories with the DataOutput writers, reopening for writing, generated chunks that carry the file across the
+/// reader's strategy switch (4096 bytes: buffered / mapped), its 64 KiB prefetch threshold and the 1 MiB huge-page threshold
+fn gen_mmio_wide(r: &mut Rng, i: usize) -> (Vec<Value>, usize) {
+    let mut ops: Vec<Value> = vec![];
+    match i % 6 {
+        0 | 1 => { // typed values only
+            for _ in 0..r.range(1, 12) { match r.below(7) {
+                0 => ops.push(json!(["u8", r.below(256)])), 1 => ops.push(json!(["u16", r.below(65536)])), 2 => ops.push(json!(["u32", r.next() >> 32])), 3 => ops.push(json!(["u64", r.next()])),
+                4 => ops.push(json!(["var", *r.pick(&[0u64, 127, 128, 16383, 16384, u32::MAX as u64, u64::MAX, 1 << 56, 300])])),
+                5 => { let n = *r.pick(&[0usize, 1, 5, 127, 128, 200]); let t: String = (0..n).map(|k| (b'a' + ((k * 7 + n) % 26) as u8) as char).collect(); ops.push(json!(["str", t])); }
+                _ => { let l = *r.pick(&[0usize, 3, 64, 700]); ops.push(json!(["bytes", hex(&r.bytes(l))])); } } }
+            (ops, *r.pick(&[0usize, 1, 16, 4096])) }
+        2 => { // reopen for writing: overwrite the head, extend the tail
+            ops.push(json!(["g", *r.pick(&[10usize, 100, 5000]), r.next()])); ops.push(json!(["o"])); ops.push(json!(["w", hex(&r.bytes(4))])); ops.push(json!(["r"]));
+            if r.chance(1, 2) { ops.push(json!(["s", 8])); ops.push(json!(["u32", 7])); } else { ops.push(json!(["s", r.below(9)])); }
+            if r.chance(1, 2) { ops.push(json!(["o"])); ops.push(json!(["s", r.below(9)])); ops.push(json!(["var", 300])); }
+            (ops, *r.pick(&[0usize, 16, 10000])) }
+        3 => { let t = *r.pick(&[4095usize, 4096, 4097, 4098, 8192]); let a = r.below(t as u64) as usize; ops.push(json!(["g", a, r.next()])); ops.push(json!(["g", t - a, r.next()])); (ops, *r.pick(&[1usize, 4096, 4097])) }
+        4 => { let t = *r.pick(&[65535usize, 65536, 65537, 70001]); ops.push(json!(["g", t - 9, r.next()])); ops.push(json!(["u64", r.next()])); ops.push(json!(["u8", 1])); (ops, *r.pick(&[16usize, 65536])) }
+        _ => { let t = *r.pick(&[1048575usize, 1048576, 1048577]); ops.push(json!(["g", 1 << 20, r.next()])); ops.push(json!(["s", 8])); ops.push(json!(["f"])); let cap = (1usize << 20) + (1 << 19); let _ = cap;
+               // the capacity is 1.5 MiB after the growth: seek back to the target length through a reopen
+               ops.clear(); ops.push(json!(["g", t, r.next()])); (ops, 1 << 20) }
     }
 }
 
@@ -1442,23 +2048,24 @@ fn run_one(cx: &mut Ctx, c: &Value) {
     match c["cell"].as_str() {
         Some("mmapvec") | Some("mmapvec_ops") | Some("mmapvec_units") => {
             let ops: Vec<Vec<u64>> = c["ops"].as_array().map(|a| a.iter().map(|o| o.as_array().map(|x| x.iter().map(|y| y.as_u64().unwrap_or(0)).collect()).unwrap_or_default()).collect()).unwrap_or_default();
-            run_mv(cx, c["es"].as_u64().unwrap_or(8) as usize, c["ic"].as_u64().unwrap_or(0) as usize, c["growth"].as_f64().unwrap_or(1.618), c["sync_on_write"].as_bool().unwrap_or(false), &ops, ex);
+            run_mv_ty(cx, &ty_of(c), c["ic"].as_u64().unwrap_or(0) as usize, c["growth"].as_f64().unwrap_or(1.618), c["sync_on_write"].as_bool().unwrap_or(false), &ops, ex, c["preset"].as_u64().unwrap_or(0));
         }
         Some("mmapvec_image") => { let im = unhex(c["image"].as_str().unwrap_or("")); cx.coq_seen.clear(); mv_coq_case(cx, c["es"].as_u64().unwrap_or(8) as usize, &im); }
         Some("reorder_image") => { let im = unhex(c["image"].as_str().unwrap_or("")); cx.coq_seen.clear(); reorder_coq_case(cx, &im); }
-        Some("plain") | Some("plain_history") => plain_case(cx, c["ops"].as_array().map(|a| a.as_slice()).unwrap_or(&[]), c["leftover"].as_u64().unwrap_or(0) as usize, ex),
+        Some("plain") | Some("plain_history") => { let fo: Vec<String> = c["foreign"].as_array().map(|a| a.iter().filter_map(|x| x.as_str().map(|s| s.to_string())).collect()).unwrap_or_default();
+            plain_case_in(cx, c["ops"].as_array().map(|a| a.as_slice()).unwrap_or(&[]), c["leftover"].as_u64().unwrap_or(0) as usize, ex, &fo) }
         Some("reorder") | Some("reorder_encode") | Some("reorder_writes") => {
             let b = if c.get("builds").is_some() { c["builds"].as_array().cloned().unwrap_or_default() } else { vec![json!({"values": c["values"], "neg": c["neg"]})] };
             reorder_case(cx, &b, ex)
         }
         Some("zipoffset") => { let recs: Vec<String> = c["records"].as_array().map(|a| a.iter().map(|x| x.as_str().unwrap_or("").to_string()).collect()).unwrap_or_default(); zipoffset_case(cx, &recs, c["checksum"].as_u64().unwrap_or(0) as u8, ex) }
-        Some("dict") => dict_case(cx, &unhex(c["text"].as_str().unwrap_or("")), c["min"].as_u64().unwrap_or(4) as usize, c["max"].as_u64().unwrap_or(256) as usize, ex),
+        Some("dict") => dict_case_opts(cx, c, c["min"].as_u64().unwrap_or(4) as usize, c["max"].as_u64().unwrap_or(256) as usize, ex, &c["opts"]),
         Some("mmio") | Some("mmio_ops") => {
             // (older replays carry "chunks")
             let ops: Vec<Value> = if let Some(ch) = c["chunks"].as_array() { ch.iter().map(|x| json!(["w", x])).collect() } else { c["ops"].as_array().cloned().unwrap_or_default() };
             mmio_case(cx, &ops, c["initial"].as_u64().unwrap_or(16) as usize, ex)
         }
-        _ => {}
+        _ => { wide::run_one_wide(cx, c); }
     }
 }
 
@@ -1559,6 +2166,7 @@ pub fn run(args: &Args) {
             if !args.thorough && i % 3 == (args.seed % 3) as usize && i >= 3 { continue; }
             let b = gen_reorder_dense(&mut rng, *t, 0); reorder_case(&mut cx, &b, false);
         }
+        for i in 0..(16 * if args.thorough { 3 } else { 1 }) { let b = gen_reorder_wide(&mut rng, i as usize); if i == 0 { cx.sum.sample(json!({"reorder_wide": b})); } reorder_case(&mut cx, &b, i % 8 < 3 && i < 6); }
         for n in [830usize, 1300, 2000, 5000].iter().take(if args.thorough { 4 } else { 3 }) {
             let extra = rng.below(40) as usize; let b = gen_reorder_dense(&mut rng, 0, *n + extra); reorder_case(&mut cx, &b, false);
         }
@@ -1567,11 +2175,39 @@ pub fn run(args: &Args) {
             let (es, ic, g, sow, ops) = gen_mv_copy(&mut rng, i as usize);
             run_mv(&mut cx, es, ic, g, sow, &ops, false);
         }
+        // oracle breadth: secondary entry points, presets, element types inside the histories; sizes across the 64 KiB mapping
+        // (the breadth families grow by 4 in the thorough tier, the older ones by 12: the harness has 15 minutes)
+        let wscale = if args.thorough { 4 } else { 1 };
+        for i in 0..(44 * wscale) {
+            let (ty, ic, g, sow, ops, preset) = gen_mv_wide(&mut rng, i as usize);
+            if i == 0 { cx.sum.sample(json!({"mmapvec_wide": {"ty": ty, "ic": ic, "growth": g, "sync_on_write": sow, "ops": ops, "preset": preset}})); }
+            let ex = i % 22 == 5;
+            run_mv_ty(&mut cx, &ty, if ex { ic.min(130) } else { ic }, g, sow, if ex { &ops[..ops.len().min(6)] } else { &ops }, ex && preset == 0, preset);
+        }
+        for i in 0..(if args.thorough { 33 } else { 11 }) {
+            let (ty, ic, g, sow, ops, preset) = gen_mv_sow(&mut rng, i as usize);
+            run_mv_ty(&mut cx, &ty, ic, g, sow, &ops, false, preset);
+        }
+        for i in 0..(if args.thorough { 16 } else { 8 }) {
+            let (ty, ic, g, sow, ops, preset) = gen_mv_big(&mut rng, i as usize);
+            run_mv_ty(&mut cx, &ty, ic, g, sow, &ops, false, preset);
+        }
         for i in 0..(40 * scale) {
             let o = gen_plain(&mut rng);
             if i == 0 { cx.sum.sample(json!({"plain": o})); }
             let leftover = if i % 3 == 1 { *rng.pick(&[1usize, 7, 50, 200, 5000]) } else { 0 };
             plain_case(&mut cx, &o, leftover, false);
+        }
+        for i in 0..(24 * wscale) {
+            let o = gen_plain_wide(&mut rng);
+            if i == 0 { cx.sum.sample(json!({"plain_wide": o})); }
+            let leftover = if i % 4 == 1 { *rng.pick(&[1usize, 50, 5000]) } else { 0 };
+            let foreign: Vec<String> = if i % 4 == 2 { ["x", ".7.tmp.bak", "007", "+3", "1.tmp", "0x2"].iter().filter(|_| rng.chance(1, 2)).map(|s| s.to_string()).collect() } else { vec![] };
+            let ex = i % 12 == 7 && leftover == 0;
+            // every byte position: keep the records small
+            let trim = |h: &Value| -> Value { let t = h.as_str().unwrap_or(""); json!(t[..t.len().min(80)].to_string()) };
+            let o: Vec<Value> = if ex { o.into_iter().map(|mut op| { if op[0] == json!(0) { op[1] = trim(&op[1]); } else if op[0] == json!(4) { let v: Vec<Value> = op[1].as_array().map(|a| a.iter().map(|h| trim(h)).collect()).unwrap_or_default(); op[1] = json!(v); } op }).collect() } else { o };
+            plain_case_in(&mut cx, &o, leftover, ex, &foreign);
         }
         for i in 0..(22 * scale) {
             let (recs, ck) = gen_zip(&mut rng, i as usize);
@@ -1597,7 +2233,13 @@ pub fn run(args: &Args) {
             }
             mmio_case(&mut cx, &ops, *rng.pick(&[1usize, 16, 4096, 10000]), false);
         }
+        for i in 0..(if args.thorough { 30 } else { 12 }) {
+            if i % 6 == 5 && i != 5 && i != 17 { continue; }   // one file at the 1 MiB threshold per quick run, two per thorough run (7 - 20 s each)
+            let (ops, initial) = gen_mmio_wide(&mut rng, i as usize);
+            mmio_case(&mut cx, &ops, initial, i < 2 && initial <= 16);
+        }
     }
+    if args.replay.is_none() { wide::run_families(&mut cx, &mut rng, args.thorough); }
     cx.sum.dist_max("images_reopened_in_reader_process", cx.images);
     cx.sum.dist_max("coq_cases", cx.shards.len() as u64);
     let sh = cx.shards.write(&args.out);
@@ -1605,3 +2247,6 @@ pub fn run(args: &Args) {
     drop(cx);
     let _ = std::fs::remove_dir_all(&root);
 }
+
+#[path = "c19_wide.rs"]
+mod wide;
